@@ -12,1102 +12,2431 @@ Definition show_fres (r : fres) : string :=
   end.
 Definition check (rs : list rune) : string := digest (show_fres (format_res rs)).
 Definition full (rs : list rune) : string := show_fres (format_res rs).
-Eval vm_compute in ("<<<M279>>>" ++ check (runes_of_ascii "//x
-root packet
-// `tick` ""quote"" 'q'
-// `tick` ""quote"" 'q'
-i8i8 { u128{ repeat lengthOf Foo //
-`u8 x,`
-,MetaDataX	falsey
-`two words` ,Pad{	u8 a1 @lengthOf( leftPad )
-, }
-    , int @calculatedFrom( // " ++ [128512]%N ++ runes_of_ascii " emoji
-""a\\""
-    ) `
-`
-    ,	}
-    , Header
-Logon , match rootA// c
-as
-    BodyLength
-    // " ++ [27880; 37322]%N ++ runes_of_ascii "
-    { """ ++ [28040; 24687]%N ++ runes_of_ascii """ :	Pad [ """ ++ [233]%N ++ runes_of_ascii "t" ++ [233]%N ++ runes_of_ascii """
-    ,
-1
-] : _x , }, options1 `crlf
-line` , repeat u	{ match	i8i8 as falsey
-{// `tick` ""quote"" 'q'
-[ 42 , 4294967296 ]: x_y_z ,42
-:
-    float ,
-// `tick` ""quote"" 'q'
+Eval vm_compute in ("<<<M689>>>" ++ check (runes_of_ascii "packet  lengthOf {
+@leftPad (' ' ) match len
+    // c
+    as
+As { ""1"" /// triple
+:	leftPad , 255:
+Pad ""1"" //	t
+:  x ,  4294967296 : u128 ,
 // c
-3
-    : packetx
-, } , }
-, charz ,
-    }
-    // a // b
-    root packet float
-// @lengthOf(
-// c
-{ repeat _x body `say ""hi""` , charz`// not a comment`,repeat lengthOf{
-repeatCount { repeat
-tag { zchar[ 42  ]
-// a // b
-// " ++ [27880; 37322]%N ++ runes_of_ascii "
-leftPad
-,repeat
-    zchar[0123456789  ]T `crlf
-line`,  char[]
-trueish , zchar[ 007 // " ++ [128512]%N ++ runes_of_ascii " emoji
-]	lengthOf @lengthOf(string_
-)`" ++ [233]%N ++ runes_of_ascii "` ,
-} ,repeat int32 As
-,int8 chars	, i32 calculatedFrom`it's`, } /// triple
-, zchar[ 00 ] chars ``
-, }	,char[255
-] charz @calculatedFrom(""1"" ) `doc` , // packet A { u8 x, }
-match body
-as rootA { ""CRC32"" :	A , [ 007
-    , ""{,}""
-    ,
-    0 // `tick` ""quote"" 'q'
-,""1""
-    ,0123456789 ,""// no comment""// " ++ [27880; 37322]%N ++ runes_of_ascii "
-, ""it's"", 1] :
-    BodyLength 65535 : x_y_z [""`tick`""]  : a1 }, repeat	asx{ char[ 0123456789 ]
-    i64_ `" ++ [28040; 24687; 31867; 22411]%N ++ runes_of_ascii "` ,
-    } , @lengthOf(  x_y_z )
-pack
-@calculatedFrom(""" ++ [233]%N ++ runes_of_ascii "t" ++ [233]%N ++ runes_of_ascii """) ,@tag( 3
-// trailing space 
-//
-) repeat uint64 o
-    ,// @lengthOf(
-}")).
-Eval vm_compute in ("<<<M1535>>>" ++ check (runes_of_ascii "packet a1 {
-    @lengthOf(f32a)
-    repeat u64 string_,
-    @calculatedFrom("""")
-    repeat i16 tag `u8 x,`,
-    @tag(42)
-    @calculatedFrom(""a\\"")
-    @calculatedFrom(""\" ++ [233]%N ++ runes_of_ascii """)
-    zchar[10] Foo,
-    char[42] body `// not a comment`,
-}
-
-MetaData roots {
-    uint64 Z9_ `{ , }`,
-    char[] charz `doc`,
-    uint16 u128 `u8 x,`,
-    zchar[4294967296] len,
-    float32 stringy,
-}
-
-packet Z9_ {
-    @leftPad('\x00')
-    @tag(42)
-    @tag(7)
-    roots x,
-    @lengthOf(int)
-    crc zchar,
-}
-
-packet string_ {
-    u8 Pad,
-    u64 chars,
-    @lengthOf(Logon)
-    pack,
-    @leftPad()
-    @rightPad(' ')
-    @calculatedFrom(""a	b"")
-    i8 x `crlf
-        line`,
-    char[0123456789] options1 @calculatedFrom(""{,}"") `two words`,
-    uint64 charz `doc`,
-    char[] u128,
-    @calculatedFrom(""1"")
-    repeat matchKey {
-        repeat int o,
-    },
-    @lengthOf(calculatedFrom)
-    @rightPad('\x00')
-    @tag(00)
-    MetaDataX {
-        uint32 BodyLength,
-    },
-    // trailing space 
-    //
-}
-
-packet lengthOf {
-    @calculatedFrom(""" ++ [28040; 24687]%N ++ runes_of_ascii """)
-    // trailing space 
-    // " ++ [27880; 37322]%N ++ runes_of_ascii "
-    repeat repeatCount {
-        repeat char[7] pack `// not a comment`,
-    },
-}")).
-Eval vm_compute in ("<<<M1490>>>" ++ check (runes_of_ascii "options {
-    StringPrefixLenType = u32;
-    ArrayPrefixLenType = u8;
-    FixedStringPadFromLeft = false;
-}
-
-packet Logon {
-    i8 venue,
-    int16 f1,
-    zchar[8] Acct,
-    repeat InNote16 {
-        InQty73 {
-            float32 tag7,
-        },
-        f32 Acct,
-        zchar[5] sym,
-    },
-    uint16 Side2,
-    i32 lastPx,
-}
-
-packet Fill {
-    repeat InOrderid15 {
-        zchar[8] sym,
-        repeat char[2] OrderId,
-        repeat Logon,
-        InQty82 {
-            char[] Tail,
-            repeat Logon,
-            float64 price,
-            f64 Side2,
-        },
-        char[12] venue,
-        char[4] Px,
-    },
-    @rightPad('0')
-    char[2] venue,
-    InPrice99 {
-        InAcct72 {
-            u8 pad0,
-        },
-        u32 OrderId,
-        Logon,
-    },
-}
-
-root packet Reject {
-    zchar[9] msgKind,
-    u32 venue,
-    u16 seqNo @lengthOf(Body),
-    match venue as Body {
-        57 : Fill,
-        8 : Logon,
-    },
-    u16 Tail @calculatedFrom(""CR\
-    C32""),
-}")).
-Eval vm_compute in ("<<<M1569>>>" ++ check (runes_of_ascii "root packet pack {
-    zchar[255] T `a\`,
-    char[] Z9_ @lengthOf(u8x) `two words`,
-    A {
-        repeat char[] x ``,
-        // @lengthOf(
-        /// triple
-        repeat zchar[007] i64_,
-    },
-    uint8x @lengthOf(i64_) ``,
-}
-
-packet calculatedFrom {
-    @leftPad()
-    u32 calculatedFrom ``,
-    @tag(0123456789)
-    @leftPad()
-    int8 _x ``,
-    match rootA as u {
-        // c
-        10 : Z9_,
-        0123456789 : float,
-        //
-        // c
-        0 : float,
-        [""it's""] : packetx,
-    },// `tick` ""quote"" 'q'
-    @lengthOf(string_)
-    zchar[0123456789] body @lengthOf(repeatCount),
-    @calculatedFrom(""\n"")
-    match body as u8x {
-        ""a\""b"" : T,
-        [
-            ""\n"", """ ++ [233]%N ++ runes_of_ascii "t" ++ [233]%N ++ runes_of_ascii """, ""CRC32"", 255, 7,
-            ""// no comment"", """ ++ [28040; 24687]%N ++ runes_of_ascii """
-        ] : x,
-        255 : packetx,
-    },
-    @tag(65535)
-    repeat Header zchar,
-}
-
-MetaData Logon {
-}")).
-Eval vm_compute in ("<<<M85>>>" ++ check (runes_of_ascii "packet chars
-{}// c
-packet
-len
-{
-    repeat char[] Foo
-, @rightPad ('0' ) zchar[ 007 ]/// triple
-a1`say ""hi""` , repeat BodyLength  leftPad ,}
-root	packet u8x { f64 lengthOf
-    @calculatedFrom(
-""CRC32""	)
-    ,
-    string
-zchar @lengthOf( int)
-    `crlf
-line` , int calculatedFrom , @lengthOf(As ) match falsey as asx {
-65535: _x
-    [ 1 ] :
-    u 007:	uint8x
-00:	f32a
-, """ ++ [233]%N ++ runes_of_ascii "t" ++ [233]%N ++ runes_of_ascii """ :	Packet ,[ 42 ,""a\""b"" ] : len
+// packet A { u8 x, }
+} ,@rightPad ( )
+crc
+`say ""hi""` ,
+@lengthOf(leftPad
+) @calculatedFrom(	""a\\"" )
+repeat // a // b
+char[]_x`100% of %d`  ,
+repeatCount // " ++ [27880; 37322]%N ++ runes_of_ascii "
+asx
+    , repeat u { match  falsey as i8i8 {
+    """ ++ [233]%N ++ runes_of_ascii "t" ++ [233]%N ++ runes_of_ascii """
+: float , [ ""\n"" ]:	_x, ""CRC32"" : roots ,	7: matchKey""packet"" :
+    Foo
     //x
-    , } , @lengthOf(stringy
-    // " ++ [128512]%N ++ runes_of_ascii " emoji
-    )@calculatedFrom(  ""1"" )repeat A { char[]lengthOf  `it's` , }
-, _x `" ++ [28040; 24687; 31867; 22411]%N ++ runes_of_ascii "` ,
-    @leftPad ('0'
-    ) match Foo as
-crc {10 :
-    trueish
-// " ++ [27880; 37322]%N ++ runes_of_ascii "
-//
-, 42
-:// " ++ [128512]%N ++ runes_of_ascii " emoji
-Pad
-, [4294967296
-,  ""// no comment"" , ""{,}"" ]:
-float
-    ,  } , @lengthOf( u8x ) a1
-// c
-// trailing space 
-@calculatedFrom( ""\" ++ [233]%N ++ runes_of_ascii """ ) // c
-,} 	 ")).
-Eval vm_compute in ("<<<M1894>>>" ++ check (runes_of_ascii "
-
-  root 
-packet packetx { match
-
-x as
-    repeatCount  // " ++ [128512]%N ++ runes_of_ascii " emoji
-{ 65535	//x
-
-:  i8i8  10
-    :
-    x_y_z 
-42	// @lengthOf(
-    	:
-
-    packetx 0123456789
-
-    :metadata [
-""\" ++ [233]%N ++ runes_of_ascii """
-
-]
-:
-	x_y_z
-
-,  ""a\\""  : i8i8 
-, }
+    , ""1"" :  int
+, }, } ,
+    i8 x// a // b
+`
+`
+,
+MetaDataX @lengthOf( f32a	)
+, charz {
+tag @calculatedFrom(""a\\""
+) , MetaDataX @lengthOf(
+matchKey
+    )
+    , int16 msg_type	,} ,
+    @calculatedFrom( ""x y"" )
+    match
+    x_y_z as
+    // 50% %s
+    Z9_  {1
+/// triple
+// " ++ [128512]%N ++ runes_of_ascii " emoji
+: lengthOf	,255 :	u128
+    ,""it's"":// @lengthOf(
+Z9_ ,
+// @lengthOf(
+// 50% %s
+42  : //	t
+len } ,
+    //
+    match calculatedFrom as crc
+    { [ 0123456789
+, 255
+, ""packet"" , ""it's""  ,
+    // @lengthOf(
+    0,
+""\n"" ,
+    1 ,
+0123456789 ] :  calculatedFrom	, 65535 : _x ""CRC32"" :tag, [
+""`tick`""] : T,
+    [
+    ""it's""
+, ""it's"" ,0123456789 ,""" ++ [128512]%N ++ runes_of_ascii """ , 4294967296
+    // a // b
     ,
-
-stringy
-
-{	// c
-  stringy
-
-    i64_ 
+""`tick`"" ]://	t
+pack
+    // 50% %s
+    ,} , } packet u8x
+    {
+} root packet string_ { @tag( 3// " ++ [128512]%N ++ runes_of_ascii " emoji
+)
+char[]crc , @rightPad (
+'\x00' )
+@leftPad ( ' '
+    )
+//x
+// packet A { u8 x, }
+repeat char[ // 50% %s
+42] Foo ,
+@calculatedFrom(
+    ""{,}"" )
+string stringy @lengthOf( chars) ,@tag(1 )
+    zchar[ 007 ]charz// @lengthOf(
+`" ++ [28040; 24687; 31867; 22411]%N ++ runes_of_ascii "` , repeat msg_type { char uint8x`say ""hi""`  ,
+    char[ //
+00
+]
+    options1
+@calculatedFrom( """ ++ [233]%N ++ runes_of_ascii "t" ++ [233]%N ++ runes_of_ascii """ )	`" ++ [233]%N ++ runes_of_ascii "`  ,matchKey
+@calculatedFrom( // packet A { u8 x, }
+""1""// " ++ [128512]%N ++ runes_of_ascii " emoji
+) , } ,@tag(0123456789
+    )
+    zchar[
+00 ]lengthOf
+    , @tag( 3 /// triple
+) falsey // trailing space 
+As , } packet lengthOf {
+    chars {Packet
+    `two words`, //
+char[ //x
+7 ] a1
+    @calculatedFrom(
+    //	t
+    ""\" ++ [233]%N ++ runes_of_ascii """
+)
+//
+// a // b
+`doc`
+    // packet A { u8 x, }
+    , charz @calculatedFrom( """ ++ [233]%N ++ runes_of_ascii "t" ++ [233]%N ++ runes_of_ascii """ )
+    , } , @lengthOf( body
+)match	metadata as BodyLength
+{""abc"" : chars
+    , 255 :	o ,},  leftPad , repeat uint32 Logon  , }")).
+Eval vm_compute in ("<<<M894>>>" ++ check (runes_of_ascii "// " ++ [27880; 37322]%N ++ runes_of_ascii "
+packet	rootA { u128@lengthOf(
+Packet// trailing space 
+) , _x
+    // a // b
+    @lengthOf( f32a//
+)`" ++ [28040; 24687; 31867; 22411]%N ++ runes_of_ascii "` ,calculatedFrom , @rightPad ( '0' ) // " ++ [27880; 37322]%N ++ runes_of_ascii "
+float{matchKey matchKey ,
+    f32
+Header // c
+@calculatedFrom( ""// no comment"" ) `doc`// a // b
+,uint8x
+    metadata , }// `tick` ""quote"" 'q'
 ,
     repeat
-    Header As
-
-    `two words`,	}
-,  repeat char[ 007	// `tick` ""quote"" 'q'
-  ]
-u8x `line1
-line2`
-
-, @lengthOf(
-    charz
-
-    )
-
-// packet A { u8 x, }
-
-@leftPad
-
-(
-	'0'
-
-)	int16
-	BodyLength ,
-
-    repeat
-float32  repeatCount , 
-match 
-trueish
-
-    as
-	MetaDataX {
-
-    ""a	b""
-    // a // b
-:	x
-	,
-} , char[ 0]matchKey  @lengthOf(float  ), 
-@lengthOf(
-i64_
+string_
+    `" ++ [233]%N ++ runes_of_ascii "`,
+u32 charz
+, }
+    packet i64_ { Z9_ asx
+,
+f32a // c
+`// not a comment`// trailing space 
+,
+    char[] Packet @calculatedFrom(
+""\" ++ [233]%N ++ runes_of_ascii """	)
+// " ++ [128512]%N ++ runes_of_ascii " emoji
+//x
+`100% of %d` ,char[	007 ]u128  @calculatedFrom(
+    """"), crc`a\`
+// " ++ [128512]%N ++ runes_of_ascii " emoji
+//
+, @calculatedFrom( ""{,}"" // " ++ [128512]%N ++ runes_of_ascii " emoji
+) //
+@calculatedFrom(  ""it's""
+) float64 chars , zchar @lengthOf(// packet A { u8 x, }
+roots )``
+, u8	lengthOf // " ++ [128512]%N ++ runes_of_ascii " emoji
+@lengthOf(	x_y_z)
+,
+    @tag(// " ++ [27880; 37322]%N ++ runes_of_ascii "
+65535 )
+@tag(	1	) @calculatedFrom(""abc"" )
+    repeat uint8	u // packet A { u8 x, }
+`// not a comment`, } options{ i64_
+    = '0'  zchar
+    // c
+    =
+""" ++ [233]%N ++ runes_of_ascii "t" ++ [233]%N ++ runes_of_ascii """ ; lengthOf= ""\" ++ [233]%N ++ runes_of_ascii """ // 50% %s
+body
+    =
+' '	; // trailing space 
+i8i8= string
+;}
+    //x
+    packet lengthOf
+    {
+@calculatedFrom( ""`tick`""
+) @lengthOf( float ) // packet A { u8 x, }
+repeat o , i32 A
+`a\`
+, i8i8 @calculatedFrom(""CRC32"" ) `it's`,@leftPad ( ' ') @tag(
+10
+) // 50% %s
+char[] o	@lengthOf( MetaDataX// a // b
+) `` ,uint64 Z9_
+    @calculatedFrom( ""// no comment""
 )
-@lengthOf( 
-repeatCount) // " ++ [27880; 37322]%N ++ runes_of_ascii "
-    @lengthOf(float
-)	f32 
-Z9_ , } ")).
-Eval vm_compute in ("<<<M1555>>>" ++ check (runes_of_ascii "packet A {
-    repeat o Z9_,
-    @calculatedFrom(""" ++ [233]%N ++ runes_of_ascii "t" ++ [233]%N ++ runes_of_ascii """)
-    @calculatedFrom(""a\\"")
-    @tag(42)
-    match Header as tag {
-        ""`tick`"" : As,
-        [""\" ++ [233]%N ++ runes_of_ascii """] : asx,
-        [3, ""1"", ""\n"", 007, ""\n""] : options1,
-        ""abc"" : falsey,
-        4294967296 : metadata,
-    },
-    @tag(4294967296)
-    tag @calculatedFrom(""" ++ [128512]%N ++ runes_of_ascii """),
-}
-
+`// not a comment`, @rightPad( ) f32a { char[] stringy ,} ,
+@leftPad () zchar[
+10 ]
+trueish , char
+    calculatedFrom `it's` // `tick` ""quote"" 'q'
+,
+} MetaData
+i64_{
+    // @lengthOf(
+    i8
+roots ,
+    lengthOf	pack  , // trailing space 
+string
+    Foo
+`100% of %d` , f32 u8x `two words`,char[] chars, zchar[ 10 ]
+u ,
+//x
 // `tick` ""quote"" 'q'
-packet stringy {
-    char[] packetx `
-    `,
-    string leftPad @lengthOf(float),
+}
+")).
+Eval vm_compute in ("<<<M4312>>>" ++ check (runes_of_ascii "packet rootA {
+    msg_type {
+        calculatedFrom Foo,// " ++ [128512]%N ++ runes_of_ascii " emoji
+        Logon {
+            o,
+            // " ++ [128512]%N ++ runes_of_ascii " emoji
+            repeat As {
+                crc,
+                zchar[1] roots @lengthOf(tag),
+            },
+            _x o,
+        },
+        zchar[007] x_y_z,
+        uint16 trueish,
+    },
+    zchar[42] Packet @calculatedFrom(""" ++ [28040; 24687]%N ++ runes_of_ascii """) `doc`,
+    float BodyLength,
     @tag(65535)
-    @lengthOf(packetx)
-    @lengthOf(Pad)
-    // trailing space 
-    // " ++ [27880; 37322]%N ++ runes_of_ascii "
-    repeatCount BodyLength,// a // b
-    char[] A @lengthOf(a1) `two words`,
+    Logon @calculatedFrom(""a	b""),
+    repeat matchKey _x `100% of %d`,
+    // a // b
+    @calculatedFrom(""" ++ [28040; 24687]%N ++ runes_of_ascii """)
+    len u8x,
 }
 
 packet falsey {
-}")).
-Eval vm_compute in ("<<<M1389>>>" ++ check (runes_of_ascii "packet A // c1a
-  // c1b
-{
-    // c2
-u8 // c3a
-  // c3b
-a
-    // c4
-,
-    // c5
-} // c6a
-  // c6b
-packet
-    // c7
-B // c8
-{
-    // c9
-u16
-    // c10
-b // c11a
-  // c11b
-, } root
-    // c14
-packet P
-    // c16
-{ // c17
-u8 K , // c20
-match
-    // c21
-K // c22
-as // c23
-M
-    // c24
-{
-    // c25
-[
-    // c26
-1 // c27a
-  // c27b
-, 2 ] // c30
-:
-    // c31
-A
-    // c32
-, // c33a
-  // c33b
-3
-    // c34
-: // c35a
-  // c35b
-B , // c37
-7 : // c39a
-  // c39b
-A // c40
-,
-    // c41
+    @lengthOf(rootA)
+    char[] i64_ @lengthOf(BodyLength),// 50% %s
+    @tag(00)
+    @lengthOf(u8x)
+    @leftPad()
+    stringy a1,
+    repeat pack {
+        match Logon as A {
+            ""\n"" : x,
+        },// @lengthOf(
+        pack u8x,
+        match Logon as A {
+            10 : uint8x,
+        },
+    },
+    @calculatedFrom(""`tick`"")
+    //
+    /// triple
+    @tag(255)
+    @calculatedFrom(""it's"")
+    match x_y_z as body {
+        ""\" ++ [233]%N ++ runes_of_ascii """ : u,
+        // " ++ [128512]%N ++ runes_of_ascii " emoji
+        [""x y"", 10] : u8x,
+        // " ++ [27880; 37322]%N ++ runes_of_ascii "
+        ""// no comment"" : crc,
+        [""x y"", 0123456789] : crc,
+        ""a\\"" : tag,
+        //
+        """ ++ [233]%N ++ runes_of_ascii "t" ++ [233]%N ++ runes_of_ascii """ : leftPad,
+        // @lengthOf(
+        // `tick` ""quote"" 'q'
+    },
+    @lengthOf(f32a)
+    @rightPad()
+    char[7] chars @lengthOf(packetx),// 50% %s
+    @tag(3)
+    f32 Packet `line1
+        line2`,
+    @tag(3)
+    repeat zchar[00] lengthOf,
 }
-    // c42
-, // c43a
-  // c43b
-}
-    // c44
-")).
-Eval vm_compute in ("<<<M1783>>>" ++ check (runes_of_ascii "root
-
-    packet
-    u128
+// @lengthOf(")).
+Eval vm_compute in ("<<<M53>>>" ++ check (runes_of_ascii "
+root packet Pad
+    { i64 leftPad @lengthOf(
+// c
+//x
+repeatCount  )
+    , } MetaData
+uint8x {  char[]
+    uint8x  ,Z9_
+// @lengthOf(
+/// triple
+roots`` //
+,  asx stringy
+    ``  , _x asx ,
+    }
+    root	packet o
 {
-    } 
-root
-
-    packet	charz  {  // packet A { u8 x, }
-  @tag(
-7	)
-MetaDataX
-    ,  _x 
+@leftPad	() char[ 255 ]
+crc	`" ++ [28040; 24687; 31867; 22411]%N ++ runes_of_ascii "`,
+char[
+65535] // " ++ [27880; 37322]%N ++ runes_of_ascii "
+i64_@lengthOf( u ) , repeat
+pack
 {
-	uint32 As
-
+string a1`100% of %d`  , match // c
+crc
+as body { ""packet"": charz
+//
+// c
+,[ 1 ]
+: int/// triple
 ,
-    charz
-, }
-, len
-    {
-
-    int64
-	u128,
-    repeat 
-falsey
-	{
-	x_y_z@lengthOf(asx
-
-    ) 
-  //	t
-    // c
-    ,  // c
-  }
-	,
-repeatCount
-	{metadata@calculatedFrom(
-    ""\n"")
-`doc` ,
-Logon
-	Foo
+}
+, } , int8// `tick` ""quote"" 'q'
+A @calculatedFrom( ""x y"" ) `it's`
+    , } packet
+metadata	{ repeat
+    lengthOf { int32 Z9_ // `tick` ""quote"" 'q'
+`a\` ,pack@calculatedFrom( ""\n""
+    ), tag `line1
+line2` , u32// " ++ [27880; 37322]%N ++ runes_of_ascii "
+calculatedFrom`two words` ,} , @tag(0123456789
+) @leftPad
+(
+    )int8 _x `line1
+line2` , match	rootA as u { 10: Z9_ ,
+    // 50% %s
+    0123456789  :
+float 0 : float, [ ""it's"" ] : packetx,
     // trailing space 
-  	// " ++ [128512]%N ++ runes_of_ascii " emoji
-    	,} // " ++ [27880; 37322]%N ++ runes_of_ascii "
-		,
-	float  rootA ,
+    } , @lengthOf( string_
+    ) zchar[ 0123456789]
+// packet A { u8 x, }
+// 50% %s
+body@lengthOf( repeatCount
+    )
+    ,@calculatedFrom(""\n""
+    )
+// @lengthOf(
+// 50% %s
+match/// triple
+body as u8x
+{ // trailing space 
+""a\""b"" : T
+,	[ ""\n"", """ ++ [233]%N ++ runes_of_ascii "t" ++ [233]%N ++ runes_of_ascii """ , ""CRC32"" ,255 ,
+7, // " ++ [128512]%N ++ runes_of_ascii " emoji
+""// no comment""
+, """ ++ [28040; 24687]%N ++ runes_of_ascii """ ]	: x
+,  255
+    :  packetx
+    /// triple
+    }, @tag( 65535
+    ) repeat Header zchar ,
+    @lengthOf( u) u16 body `100% of %d`,
+}
+")).
+Eval vm_compute in ("<<<M715>>>" ++ check (runes_of_ascii "// `tick` ""quote"" 'q'
+packet
+u128 { @calculatedFrom(
+""packet"" )	string_ @lengthOf(charz
+) `doc`,
+match msg_type as	crc	{
+    ""\" ++ [233]%N ++ runes_of_ascii """
+    : u8x ,
+[ 3,// " ++ [27880; 37322]%N ++ runes_of_ascii "
+""abc""
+,""// no comment""
+,
+    ""a\""b"" , ""a	b"" , 007 ]
+    :matchKey 00 : stringy // trailing space 
+, 1
+:  string_
+// " ++ [27880; 37322]%N ++ runes_of_ascii "
+// " ++ [128512]%N ++ runes_of_ascii " emoji
+,3: Header , [
+007
+,
+""`tick`""]
+:
+    // 50% %s
+    BodyLength ,
+} ,@lengthOf( rootA
+    ) @lengthOf( x_y_z
+// 50% %s
+// trailing space 
+)@tag( 4294967296
+) zchar[ 4294967296] u128 // packet A { u8 x, }
+`say ""hi""` ,Packet @calculatedFrom( ""`tick`""
+)
+    ,	options1
+{ // 50% %s
+repeat
+    len falsey `line1
+line2`
+,
+    // 50% %s
+    int64 // packet A { u8 x, }
+lengthOf
+    ,} , }
+    options{ rootA =false ;  roots = zchar[
+10]
+;
+} packet uint8x { @calculatedFrom(
+""packet"")@calculatedFrom(""it's""
+//
+//
+)Logon
+// 50% %s
+// " ++ [27880; 37322]%N ++ runes_of_ascii "
+{
+u64 falsey	, repeat
+    f32 packetx
+,
+    uint16 packetx,zchar[ 3] x_y_z
+@lengthOf( falsey
+    //	t
+    ) `" ++ [28040; 24687; 31867; 22411]%N ++ runes_of_ascii "`,}
+,@tag( 00  ) u32 Packet	`{ , }` , @lengthOf(	float
+)	f64
+    roots
+// c
+// " ++ [27880; 37322]%N ++ runes_of_ascii "
+@lengthOf( _x
+),
+    @tag(
+    7 )
+repeat u8
+_x `crlf
+line`, zchar[  10 ]
+stringy
+// " ++ [27880; 37322]%N ++ runes_of_ascii "
+// " ++ [27880; 37322]%N ++ runes_of_ascii "
+@calculatedFrom( ""\n"" )
+,
+    }
+MetaData chars
+    { }
+")).
+Eval vm_compute in ("<<<M3880>>>" ++ check (runes_of_ascii "MetaData chars {
+    // @lengthOf(
+    falsey As,
+    char[42] o,// " ++ [128512]%N ++ runes_of_ascii " emoji
+    string_ Header,
+}
 
-    } 
+MetaData falsey {
+    zchar[0] falsey `{ , }`,
+    int32 MetaDataX,
+    char[255] Foo,
+    int64 u128,
+    char[] u128,// packet A { u8 x, }
+}
+
+packet metadata {
+    // packet A { u8 x, }
+    //	t
+    metadata @calculatedFrom(""`tick`""),
+    repeat pack roots `line1
+        line2`,
+    string_ @calculatedFrom(""\n""),
+    repeat trueish {
+        trueish T,
+        //x
+        // `tick` ""quote"" 'q'
+        u16 asx,
+        body {
+            repeat _x {
+                _x @lengthOf(i8i8) `say ""hi""`,
+                // a // b
+                //
+            },
+        },
+    },
+    @calculatedFrom(""a\\"")
+    repeat chars {
+        f32a {
+            // c
+            zchar[255] msg_type,
+            repeat float64 stringy `
+                        `,
+        },
+        repeat uint8x `tab	here`,
+        Logon {
+            repeat f64 MetaDataX,
+            u64 T @lengthOf(body),
+        },
+    },
+    @lengthOf(trueish)
+    // " ++ [27880; 37322]%N ++ runes_of_ascii "
+    // @lengthOf(
+    float64 _x @calculatedFrom(""" ++ [128512]%N ++ runes_of_ascii """),
+}
+
+MetaData chars {
+}")).
+Eval vm_compute in ("<<<M3711>>>" ++ check (runes_of_ascii "root
+
+    packet int
+
+    {char[ 4294967296]
+	Pad ,}  
+  //
+  // @lengthOf(
+	packet
+MetaDataX 
+{ @lengthOf( string_
+	)
+    @tag(	1 )match
+// " ++ [128512]%N ++ runes_of_ascii " emoji
+	  repeatCount  as leftPad
+{
+007
+:
+
+MetaDataX
+,}  ,
+
+@rightPad
+	(' '
+    )@tag( 
+4294967296) 
+zchar[	255
+]chars //x
+  , 
+
+//	t
+@tag(
+
+    7) 
+match	trueish as
+    matchKey
+    {
+    [10
+
+    ] 
+:zchar
+	[
+
+1]
+	:
+// a // b
+  	x 
+,
+    4294967296 :falsey 
+, [
+    ""packet""
+        /// triple
+  // trailing space 
+    ,
+""`tick`"", ""\n"" ,
+
+007 ,	255 ,
+""`tick`""	//	t
 ,
 
-    } 
-// a // b
-")).
-Eval vm_compute in ("<<<M300>>>" ++ check (runes_of_ascii "
-root
-    packet pack
-{
-repeat u8x
-    `a\`
-    , char[ 3 ]MetaDataX `two words` ,
-    @leftPad ( ' '  ) zchar[ 4294967296 ]crc
-@calculatedFrom( """ ++ [128512]%N ++ runes_of_ascii """
-)
+    """ ++ [28040; 24687]%N ++ runes_of_ascii """
+]
+    :
+f32a
+
+    ,
+	[ 4294967296 
+
     // c
-    ,  @lengthOf(
-    // " ++ [27880; 37322]%N ++ runes_of_ascii "
-    options1 )
-// " ++ [128512]%N ++ runes_of_ascii " emoji
-// " ++ [27880; 37322]%N ++ runes_of_ascii "
-@calculatedFrom( ""x y"" )repeat u{ repeat	x_y_z options1
-`two words` , zchar[3	]
-charz ,
-    Logon { u8	pack ,
-repeat zchar , i8i8{ repeat
-    u8
-    matchKey , }, } ,
-}, }")).
-Eval vm_compute in ("<<<M1886>>>" ++ check (runes_of_ascii "
-options{
-
-    As  =
-    char[
-
-    007  ]
-
-    ;
-
-_x // a // b
-		=
-
-1 ;
-	matchKey  = true ; 
-Logon // trailing space 
-	=  ' '  ; 
-stringy = /// triple
-	zchar[
-    007
-] 
-;
-    }root
-    packet
-MetaDataX
-
-{ //x
-match 
-leftPad
-as
-Logon
-{  255	:packetx[
-
-0123456789
-
-]  :
-	x_y_z , 10 
-// `tick` ""quote"" 'q'
-
-// a // b
-	:
-
-rootA }
+    , ""1"" ,  ""a\\""
+	// " ++ [128512]%N ++ runes_of_ascii " emoji
+, ""it's""
     ,
 
-    } ")).
-Eval vm_compute in ("<<<M96>>>" ++ check (runes_of_ascii "options{
-} packet /// triple
-chars {
-int64 i8i8
+    ""`tick`""	, 00
+	,
+10 ] : matchKey, 0
+:int ,
+}  ,
+zchar[
+    00 ]  msg_type ,  @tag(3
+
+)  pack
+
+@calculatedFrom(	""CRC32"" ) 
+, msg_type 
+      // c
+
+  // " ++ [128512]%N ++ runes_of_ascii " emoji
+    lengthOf , MetaDataX { 
+float
+
+{repeat i64_,}
+,int  BodyLength  , }  ,
+	char[]
+crc`// not a comment`
+
+    ,char[]
+
+    o
+    @calculatedFrom(
+""CRC32"" 
+)
+, // `tick` ""quote"" 'q'
+
+  i16
+
+As
+    @lengthOf(
+	len
+    )
+
+    `" ++ [233]%N ++ runes_of_ascii "`	,}
+")).
+Eval vm_compute in ("<<<M392>>>" ++ check (runes_of_ascii "packet options1
+{body { i8 i8i8,
+falsey @calculatedFrom(
+    """ ++ [28040; 24687]%N ++ runes_of_ascii """ ) ,a1 @calculatedFrom( ""a	b"" )  `tab	here`, }
+    , u8
+u8x `u8 x,`	,  @leftPad
+(
+' '
+)@lengthOf( a1) @tag( 42 // c
+)
+    // 50% %s
+    uint8x
+@calculatedFrom( ""{,}"" //x
+),
+    @tag( 65535 ) @tag( 42) repeat uint64 i64_
     /// triple
-    @calculatedFrom( ""// no comment"" ) `line1
-line2` ,
-@calculatedFrom(
-""`tick`"" )
-    _x
-    `" ++ [28040; 24687; 31867; 22411]%N ++ runes_of_ascii "` , match
-float /// triple
-as BodyLength  {//
-""" ++ [28040; 24687]%N ++ runes_of_ascii """:
-    x_y_z [ 7 , 10
-    , """ ++ [233]%N ++ runes_of_ascii "t" ++ [233]%N ++ runes_of_ascii """	, 1 ,""x y"" , 3 ] :	i64_	,
-} , // a // b
-} packet
-uint8x { } // " ++ [27880; 37322]%N)).
-Eval vm_compute in ("<<<M92>>>" ++ check (runes_of_ascii "root
-    packet packetx {	uint32
-x_y_z@calculatedFrom( """ ++ [233]%N ++ runes_of_ascii "t" ++ [233]%N ++ runes_of_ascii """ ) ,@calculatedFrom(
-    ""{,}"" // trailing space 
-)	float calculatedFrom
-`line1
-line2` ,u16 Packet @lengthOf( f32a ) ,
-char[] o `tab	here`, @calculatedFrom( ""x y""  )T {
-repeat i64 chars , } ,
-i16  roots	,
-} // @lengthOf(")).
-Eval vm_compute in ("<<<M1477>>>" ++ check (runes_of_ascii "options {
-    LittleEndian = true;
-}
-packet Logon {
-    u8 x,
-    string user,
-}
-packet Logout {
-    u16 reason,
-}
-packet Empty {
-}
-root packet Frame {
-    u16 MsgType,
-    @lengthOf(Body) u8 BodyLen,
-    u8 flags,
-    Logon Body,
-    u32 trailer,
+    `{ , }`  ,@leftPad (
+'\x00' )
+uint16
+    stringy// packet A { u8 x, }
+, zchar
+,
+    repeat // trailing space 
+i64_ leftPad ,
+charz i64_
+    ,len @calculatedFrom(
+    // c
+    ""packet"") , /// triple
+}// @lengthOf(
+packet	calculatedFrom { repeat packetx{
+repeat string
+options1 ,
+    // `tick` ""quote"" 'q'
+    } , // 50% %s
+int64
+msg_type , @tag( 3 //	t
+)
+leftPad	float ,
+    match /// triple
+body as Pad { 255
+    :
+    calculatedFrom
+    , [
+""it's"" ,  """"
+    ,
+    ""CRC32""	,
+4294967296
+, 10
+,""" ++ [233]%N ++ runes_of_ascii "t" ++ [233]%N ++ runes_of_ascii """
+, 0123456789 ] :trueish 10 :
+Z9_, [
+    ""a\\"" ] ://
+roots, 0123456789// 50% %s
+:  rootA	, } , } options{options1= 0123456789
+    } options { // " ++ [128512]%N ++ runes_of_ascii " emoji
 }
 ")).
-Eval vm_compute in ("<<<M1588>>>" ++ check (runes_of_ascii "packet float {
-    f64 float `u8 x,`,
+Eval vm_compute in ("<<<M4456>>>" ++ check (runes_of_ascii "packet float {
+    @tag(3)
+    repeat zchar[3] falsey,
+    @leftPad()
+    packetx calculatedFrom,
+    o @lengthOf(i8i8),
+    i64 o,
+    char[0] stringy,
+    match metadata as metadata {
+        0 : BodyLength,
+        ""it's"" : u,
+        3 : chars,
+        255 : asx,
+        [4294967296, 10] : int,
+        4294967296 : stringy,
+    },
+    Foo {
+        match chars as A {
+            ""a\\"" : Packet,
+            [
+                0123456789, 0123456789, 0123456789, """ ++ [128512]%N ++ runes_of_ascii """, ""1"",
+                3, ""CRC32""
+            ] : msg_type,
+        },
+        match body as int {
+            7 : packetx,
+        },
+        i8 zchar @calculatedFrom(""\n""),
+        match stringy as Foo {
+            65535 : calculatedFrom,
+            // c
+        },
+    },
+    @rightPad('\x00')
+    MetaDataX pack `" ++ [28040; 24687; 31867; 22411]%N ++ runes_of_ascii "`,
+}
+
+options {
+    roots = 65535;
+}
+
+MetaData float {
+    Foo f32a,
+}
+
+options {
+    f32a = 1
+}
+
+options {
+    Packet = '\x00';
+}")).
+Eval vm_compute in ("<<<M293>>>" ++ check (runes_of_ascii "packet x_y_z { uint16
+Logon
+    @lengthOf(
+u128)
     // " ++ [27880; 37322]%N ++ runes_of_ascii "
+    , stringy
+// " ++ [27880; 37322]%N ++ runes_of_ascii "
+//	t
+{ match //x
+MetaDataX as // " ++ [27880; 37322]%N ++ runes_of_ascii "
+asx
+    {
+    ""a\\"" // 50% %s
+: T 255 :
+    lengthOf , 00
+    :// @lengthOf(
+roots ,
+    65535 :  rootA
+,10: len
+    /// triple
+    ,
+    } , zchar[ 00] x
+    `// not a comment`	, }
+    ,int32	Pad ,
+// " ++ [128512]%N ++ runes_of_ascii " emoji
+// packet A { u8 x, }
+u8 crc
+    `
+` //x
+,@calculatedFrom( ""`tick`""
+    //x
+    ) Pad , // trailing space 
+string stringy
+    @lengthOf( metadata ) , match u128
+    as  asx{[  1 , """" ] : BodyLength  4294967296 // " ++ [128512]%N ++ runes_of_ascii " emoji
+: rootA , [ """ ++ [233]%N ++ runes_of_ascii "t" ++ [233]%N ++ runes_of_ascii """ ] :
+float
+    // " ++ [128512]%N ++ runes_of_ascii " emoji
+    , [	007
+, ""`tick`"" ] : int, }
+,@leftPad
+('\x00' )
+match
+    // c
+    uint8x as pack{[ ""\n"" ,
+""a	b"" , 10 // " ++ [27880; 37322]%N ++ runes_of_ascii "
+, 255 , ""a	b"", """"
+    ] :repeatCount , },@calculatedFrom(""a\""b""
+// a // b
+//x
+)// c
+x_y_z
+@lengthOf( x ) `line1
+line2` , @calculatedFrom( ""1""	)repeat float32 roots, }
+")).
+Eval vm_compute in ("<<<M830>>>" ++ check (runes_of_ascii "packet f32a { @calculatedFrom( ""abc"" ) //x
+match
+metadata as
+    packetx
+    {
+""it's""
+: // " ++ [128512]%N ++ runes_of_ascii " emoji
+float , """ ++ [128512]%N ++ runes_of_ascii """ : i64_ , // " ++ [27880; 37322]%N ++ runes_of_ascii "
+007 :
+pack,	[	0123456789 , """ ++ [233]%N ++ runes_of_ascii "t" ++ [233]%N ++ runes_of_ascii """ ,
+    // @lengthOf(
+    ""`tick`"" , 255 //	t
+] : i8i8 ,} ,int64 Pad `" ++ [233]%N ++ runes_of_ascii "` , match
+i8i8 as packetx {0123456789 :
+u ,	[10]: crc,0123456789
+:u128,
+    } ,
+    // c
+    }
+    MetaData charz
+{ u8	Z9_ , }packet leftPad{ roots As ,@rightPad
+    ( '0'
+    )
+    charz
+x ,  char[]
+    uint8x`
+`
+    , Pad	A
+, // packet A { u8 x, }
+@leftPad(  '0')	@tag( 1 ) @rightPad (
+    ) char[ 4294967296
+]	x_y_z `doc` , @tag(1) @rightPad ( ' ' ) Logon @calculatedFrom( ""packet"") , @tag( 1)repeat zchar[ 255
+// a // b
+// " ++ [27880; 37322]%N ++ runes_of_ascii "
+] rootA //	t
+, string calculatedFrom  `crlf
+line` , @rightPad
+    ( ' ' ) @calculatedFrom( ""\n"" )
+@tag( 4294967296) //x
+chars @calculatedFrom(
+""" ++ [233]%N ++ runes_of_ascii "t" ++ [233]%N ++ runes_of_ascii """	)`{ , }` , int
+    ,
+    }
+")).
+Eval vm_compute in ("<<<M468>>>" ++ check (runes_of_ascii "root packet
+A { char[
+1 ]calculatedFrom ,
+@lengthOf( tag) repeat
+    uint16 float , @calculatedFrom( ""a\""b"" ) char[]
+rootA @calculatedFrom( ""CRC32"" ) ,char[
+/// triple
+// packet A { u8 x, }
+00 // `tick` ""quote"" 'q'
+] a1
+`" ++ [233]%N ++ runes_of_ascii "`
+, Packet  {
+calculatedFrom {
+    falsey
+    charz
+`a\` ,T
+`u8 x,`	,
+BodyLength @calculatedFrom( ""a\""b"") `say ""hi""` ,
+    // c
+    } //x
+,
+repeat zchar[ 0 ]
+//x
+// c
+rootA , } ,
+@calculatedFrom( ""1"")
+match
+    Foo
+    as msg_type
+    // packet A { u8 x, }
+    { 0: u8x,4294967296 :
+u, 1 :
+    x , // 50% %s
+["""" ,
+    // " ++ [128512]%N ++ runes_of_ascii " emoji
+    10 ,0, ""x y"" ,""" ++ [128512]%N ++ runes_of_ascii """,	00 ]
+:	trueish,}, //	t
+zchar[0123456789  ]
+// `tick` ""quote"" 'q'
+// c
+Packet @lengthOf( matchKey
+) `100% of %d` //x
+, matchKey, }  root
+    packet Packet
+{ @rightPad ( '\x00'
+)  match
+o
+as int { [
+""" ++ [28040; 24687]%N ++ runes_of_ascii """ ] : trueish,} ,
+}
+")).
+Eval vm_compute in ("<<<M702>>>" ++ check (runes_of_ascii "root packet trueish{ @lengthOf(A)
+    repeat
+    roots { repeat len stringy
+    // 50% %s
+    `two words` ,	A @calculatedFrom( ""x y"" ) ,
+//x
+// c
+match MetaDataX as roots
+// a // b
+// `tick` ""quote"" 'q'
+{""CRC32"" :
+len
+,
+    /// triple
+    [ ""\" ++ [233]%N ++ runes_of_ascii """
+, """ ++ [28040; 24687]%N ++ runes_of_ascii """
+    ]: BodyLength ,
+""" ++ [28040; 24687]%N ++ runes_of_ascii """ :
+stringy}
+, }, A stringy ,zchar[7 ]	chars`" ++ [28040; 24687; 31867; 22411]%N ++ runes_of_ascii "`,Pad { i8i8 , match roots as u128{ ""x y"" : u128
+, [  1 ] : uint8x , 0123456789 :
+f32a , // " ++ [128512]%N ++ runes_of_ascii " emoji
+""it's""  : u8x,} , match
+// c
+// " ++ [128512]%N ++ runes_of_ascii " emoji
+T	as
+/// triple
+//
+repeatCount { 255: falsey
+,
+    //
+    [ 1 , ""a\""b"" ] :x_y_z ,
+[""packet""
+, 42
+,
+""" ++ [128512]%N ++ runes_of_ascii """ , """ ++ [233]%N ++ runes_of_ascii "t" ++ [233]%N ++ runes_of_ascii """ // 50% %s
+, 3	, ""a	b"" // " ++ [128512]%N ++ runes_of_ascii " emoji
+] : lengthOf	,0 : uint8x , 42 :
+    BodyLength , [  0
+// a // b
+// a // b
+,
+""x y""]
+    :
+Header ,
+    } ,
+zchar[
+// " ++ [27880; 37322]%N ++ runes_of_ascii "
+// " ++ [128512]%N ++ runes_of_ascii " emoji
+42 ]Foo
+, }
+,
+}
+")).
+Eval vm_compute in ("<<<M4287>>>" ++ check (runes_of_ascii "packet body {
+    @tag(0123456789)
+    repeatCount {
+        // @lengthOf(
+        i32 roots @calculatedFrom(""it's""),
+        char[] repeatCount @calculatedFrom(""packet"") `" ++ [28040; 24687; 31867; 22411]%N ++ runes_of_ascii "`,
+        repeat u16 roots,
+        match lengthOf as As {
+            [""packet"", """ ++ [28040; 24687]%N ++ runes_of_ascii """, 255, 42, ""\" ++ [233]%N ++ runes_of_ascii """] : x_y_z,
+        },
+    },
+    trueish,
+    @tag(65535)
+    @tag(255)
+    /// triple
+    @tag(00)
+    chars @calculatedFrom(""it's""),
+    match o as roots {
+        // " ++ [27880; 37322]%N ++ runes_of_ascii "
+        // c
+        ""{,}"" : options1,
+        """ ++ [28040; 24687]%N ++ runes_of_ascii """ : lengthOf,
+        00 : pack,
+        [""a\""b""] : msg_type,
+        1 : i8i8,
+        [10, 3, """"] : falsey,
+    },
+}
+
+root packet Z9_ {
+    repeat char[] Packet,
+    string chars @calculatedFrom(""a\""b"") `100% of %d`,
+}")).
+Eval vm_compute in ("<<<M1098>>>" ++ check (runes_of_ascii "options
+{ // 50% %s
+} packet Packet { @leftPad ('\x00' )  x_y_z
+,
+@tag( 3
+    )repeat string
+stringy , Foo{
+    Header@lengthOf(  repeatCount ) ,
+    // `tick` ""quote"" 'q'
+    repeat falsey Header, uint8x
+roots
+// " ++ [128512]%N ++ runes_of_ascii " emoji
+// c
+,
+    /// triple
+    } , int64 calculatedFrom
+, } root packet rootA {
+i8i8 string_ ,
+    zchar[	0
+] crc @calculatedFrom( ""a	b"" //x
+) , string_ { pack ,
+x_y_z	crc	`" ++ [28040; 24687; 31867; 22411]%N ++ runes_of_ascii "`,} , @leftPad ( '0'
+)match
+int as // @lengthOf(
+body { """ ++ [233]%N ++ runes_of_ascii "t" ++ [233]%N ++ runes_of_ascii """: tag
+    ,""1"" :
+// packet A { u8 x, }
+// @lengthOf(
+charz , ""\n"" : MetaDataX  , ""a	b"": repeatCount , //	t
+"""" :  leftPad[ ""\n"" ,  ""// no comment"" ]
+:lengthOf, } ,  @lengthOf( len )  int32 Pad
+// c
+// @lengthOf(
+`line1
+line2` ,}
+")).
+Eval vm_compute in ("<<<M470>>>" ++ check (runes_of_ascii "packet
+_x
+    { match  matchKey as
+packetx	{ 007 :crc,} , match trueish as A // 50% %s
+{""" ++ [233]%N ++ runes_of_ascii "t" ++ [233]%N ++ runes_of_ascii """
+    :a1
+    ,
+[ ""packet"" , ""x y"" ,
+""" ++ [233]%N ++ runes_of_ascii "t" ++ [233]%N ++ runes_of_ascii """,
+    """ ++ [233]%N ++ runes_of_ascii "t" ++ [233]%N ++ runes_of_ascii """,
+    """ ++ [28040; 24687]%N ++ runes_of_ascii """ /// triple
+]:
+    msg_type 10 :packetx""{,}"":	u
+    // c
+    , 42:	tag
+, } , zchar[
+    255 ] crc `100% of %d`, matchKey crc
+`" ++ [28040; 24687; 31867; 22411]%N ++ runes_of_ascii "` ,	@calculatedFrom( ""packet"" ) //	t
+@lengthOf(Z9_ ) @leftPad ( '0' )lengthOf x_y_z ,string
+    asx ``,@rightPad ( ' ' )	match chars
+as	calculatedFrom { [ ""a\\""
+// 50% %s
+/// triple
+,
+    // packet A { u8 x, }
+    0 ] : trueish 3 : BodyLength ""{,}"" :
+    len} ,repeat zchar[
+4294967296 ] // 50% %s
+A `line1
+line2` ,
+    repeat
+    char	uint8x `` , zchar[	1 ]	matchKey ,}
+")).
+Eval vm_compute in ("<<<M409>>>" ++ check (runes_of_ascii "// " ++ [128512]%N ++ runes_of_ascii " emoji
+packet trueish{u16 crc`line1
+line2` ,
+// @lengthOf(
+// 50% %s
+roots
+    //
+    ,int
+{i64_
+    x_y_z	, u8x `a\`,
+f32
+A //	t
+`it's`,
+    // `tick` ""quote"" 'q'
+    } , calculatedFrom,  char[]chars// " ++ [128512]%N ++ runes_of_ascii " emoji
+`{ , }` , zchar[10 ]
+    BodyLength  ,@lengthOf( asx
+)
+    @rightPad ( '\x00' ) @tag( 10) calculatedFrom Z9_
+`{ , }`
+    ,
+@lengthOf(
+MetaDataX ) repeat string  calculatedFrom `it's` ,@tag( 4294967296
+    // packet A { u8 x, }
+    ) packetx , } packet Header { @rightPad(
+' ' )	@calculatedFrom(""" ++ [28040; 24687]%N ++ runes_of_ascii """
+) repeat charz {
+    repeat zchar[ 7// 50% %s
+] i64_
+    `tab	here` , u64 o
+, int MetaDataX `100% of %d` , } ,	}")).
+Eval vm_compute in ("<<<M658>>>" ++ check (runes_of_ascii "root packet float{
+    @calculatedFrom(
+/// triple
+// trailing space 
+""CRC32"" )match roots
+as
+calculatedFrom
+    {
+007  : float,
     //	t
-    @tag(1)
-    len tag `crlf
+    } , match o as charz {//
+00 : Packet
+// packet A { u8 x, }
+// c
+65535 : lengthOf
+1:
+tag ,}
+    ,	@rightPad ( '\x00')
+int16 Header @lengthOf(u128 ) `" ++ [28040; 24687; 31867; 22411]%N ++ runes_of_ascii "` , } root
+    packet lengthOf { @rightPad ( '\x00' ) @lengthOf( tag
+    // a // b
+    )  char[]	BodyLength , repeat int8
+Foo , @lengthOf( roots ) string Z9_ `// not a comment` , u16
+tag ,
+    @tag(007//	t
+)  Header @calculatedFrom( """ ++ [28040; 24687]%N ++ runes_of_ascii """	) ,}
+    root packet u8x
+    { @rightPad('0' )
+    i64 Packet , }
+")).
+Eval vm_compute in ("<<<M670>>>" ++ check (runes_of_ascii "  packet stringy
+//
+//
+{
+@lengthOf( int) @lengthOf(lengthOf) repeat
+zchar[ 65535] x, match Z9_
+    as x_y_z{	""a\""b"": x_y_z
+    , """ ++ [128512]%N ++ runes_of_ascii """ : i8i8 ,3 : // " ++ [27880; 37322]%N ++ runes_of_ascii "
+i64_ ""packet"":
+    charz
+// packet A { u8 x, }
+/// triple
+} ,	matchKey { char[ 7 ] repeatCount
+@lengthOf(len //x
+) `100% of %d`,
+}
+, // trailing space 
+char[] leftPad, i8i8 @calculatedFrom(// @lengthOf(
+""abc"" ) `say ""hi""` , } packet f32a
+    {
+    } options
+{matchKey = ""abc""  ; int =zchar[ 0  ] ;float
+= '\x00'
+; int='\x00'} root // @lengthOf(
+packet
+    // trailing space 
+    a1 {
+    repeat Header { Foo
+,}
+, }")).
+Eval vm_compute in ("<<<M4023>>>" ++ check (runes_of_ascii "MetaData trueish {
+    trueish len,
+    string T,
+    char[0123456789] chars,
+    falsey As `it's`,
+    chars calculatedFrom,
+    char[] options1,
+}
+
+root packet leftPad {
+    @rightPad(' ')
+    repeat matchKey {
+        // 50% %s
+        msg_type @calculatedFrom(""" ++ [233]%N ++ runes_of_ascii "t" ++ [233]%N ++ runes_of_ascii """),
+    },
+    zchar[65535] metadata `a\`,
+    repeat char[0123456789] falsey `
+        `,
+}
+
+root packet falsey {
+    f32a `crlf
         line`,
 }
 
-root packet u {
-    o x `it's`,
-    @rightPad()
-    repeat zchar[00] Foo,
-    // trailing space 
-}
-
-root packet string_ {
-}")).
-Eval vm_compute in ("<<<M484>>>" ++ check (runes_of_ascii "options
-{
-matchKey = 42/// triple
-x='0' ;
-// packet A { u8 x, }
-//
-charz
-=
-// packet A { u8 x, }
-// trailing space 
-true  ; } MetaData BodyLength
-{
-uint8
-pack`doc`zchar[ 1]float ,  float32 x_y_z `` ,u32
-_x,i16 body  , }
-")).
-Eval vm_compute in ("<<<M549>>>" ++ check (runes_of_ascii "options
-{
-matchKey = 42/// triple
-x='0' ;
-// packet A { u8 x, }
-//
-charz
-=
-// packet A { u8 x, }
-// trailing space 
-true  ; } MetaData BodyLength
-{
-uint8
-pack,zchar[ 1]float ,  float32 x_y_z `` ,u32
-_x,match body  , }
-")).
-Eval vm_compute in ("<<<M413>>>" ++ check (runes_of_ascii "options
-{
-matchKey = 42/// triple
-=x'0' ;
-// packet A { u8 x, }
-//
-charz
-=
-// packet A { u8 x, }
-// trailing space 
-true  ; } MetaData BodyLength
-{
-uint8
-pack,zchar[ 1]float ,  float32 x_y_z `` ,u32
-_x,i16 body  , }
-")).
-Eval vm_compute in ("<<<M391>>>" ++ check (runes_of_ascii "options
-
-matchKey = 42/// triple
-x='0' ;
-// packet A { u8 x, }
-//
-charz
-=
-// packet A { u8 x, }
-// trailing space 
-true  ; } MetaData BodyLength
-{
-uint8
-pack,zchar[ 1]float ,  float32 x_y_z `` ,u32
-_x,i16 body  , }
-")).
-Eval vm_compute in ("<<<M464>>>" ++ check (runes_of_ascii "options
-{
-matchKey = 42/// triple
-x='0' ;
-// packet A { u8 x, }
-//
-charz
-=
-// packet A { u8 x, }
-// trailing space 
-true  ; } MetaData uint64
-{
-uint8
-pack,zchar[ 1]float ,  float32 x_y_z `` ,u32
-_x,i16 body  , }
-")).
-Eval vm_compute in ("<<<M169>>>" ++ check (runes_of_ascii "packet u128 {
-string
-T
-, }
-packet
-A { Pad { metadata f32a, match  i8i8
-    as //x
-crc { 7:a1,[ ""1"" ] :Foo	, 7
-    : metadata
-    // c
-    , 65535 : pack
-    ,	} , repeat char[] string_, }/// triple
-,
-}
-")).
-Eval vm_compute in ("<<<M697>>>" ++ check (runes_of_ascii "// c
-packet i64_ {	char[] calculatedFrom , MetaData packet
-trueish  {@calculatedFrom(
-""a\\"" ) o { i32 falsey@lengthOf( uint8x ),
-} , } // `tick` ""quote"" 'q'
-options {// c
-Z9_ = ' '//
-}
-")).
-Eval vm_compute in ("<<<M688>>>" ++ check (runes_of_ascii "// c
-packet i64_ \{	char[] calculatedFrom , } packet
-trueish  {@calculatedFrom(
-""a\\"" ) o { i32 falsey@lengthOf( uint8x ),
-} , } // `tick` ""quote"" 'q'
-options {// c
-Z9_ = ' '//
-}
-")).
-Eval vm_compute in ("<<<M714>>>" ++ check (runes_of_ascii "// c
-packet i64_ {	char[] calculatedFrom , } packet
-root  {@calculatedFrom(
-""a\\"" ) o { i32 falsey@lengthOf( uint8x ),
-} , } // `tick` ""quote"" 'q'
-options {// c
-Z9_ = ' '//
-}
-")).
-Eval vm_compute in ("<<<M370>>>" ++ check (runes_of_ascii "packet
-    rootA // packet A { u8 x, }
-{ tag
-`u8 x,`
-, char[]	o	,
-    i8i8	@lengthOf(
-    // @lengthOf(
-    stringy ) `// not a comment`
-    ,
-    // " ++ [128512]%N ++ runes_of_ascii " emoji
-    }
-")).
-Eval vm_compute in ("<<<M1799>>>" ++ check (runes_of_ascii "
-packet
-
-A
-{ u8
-    a,
-	}
-
-    packet B
-    {
-
-u16 
-b
-
-, } root
-packet
-    P
-{
-u8
-K
-    ,
-match
-	K as
-M  {
-1
-: 
-A,
-
-    1 :
-	B
-
-    , }
-,
-}")).
-Eval vm_compute in ("<<<M1735>>>" ++ check (runes_of_ascii "
-
-  packet
-A
-    { 
-match  k
-as 
-n	{
-
-    [
-
-""a"" , 
-22	, ""c c"" ,
-    4
-    , ""e""
-, 
-66 
-,
-""g"" , 8 ,""i"" ]
-:
-
-    B
-
-2
-
-    : C}
-,
-	}
-
-")).
-Eval vm_compute in ("<<<M1527>>>" ++ check (runes_of_ascii "
-
-  packet
-    A {
-	match
-k
-
-as
-    n {  [""a"" 
-,
-	""bb"",
-    007 ,""d""
-, ""e"" ,
-
-66 ,
-    ""g"" , 
-""h"",  9  ]
-
-    :
-	B 2 :
-
-C  },
-	} ")).
-Eval vm_compute in ("<<<M1800>>>" ++ check (runes_of_ascii "packet
-    Logon
-	{ @tag( 42 
-)
-	@rightPad  ( ' '
-
-    )
-
-@leftPad
-(
-
-)  repeat
-    trueish
-
-    {string
-T 
-, // c
-
-}
-	,} ")).
-Eval vm_compute in ("<<<M682>>>" ++ check (runes_of_ascii "// c
-packet i64_ {	char[] calculatedFrom , } packet
-trueish  {@calculatedFrom(
-""a\\"" ) o { i32 falsey@lengthOf( uint8x )")).
-Eval vm_compute in ("<<<M1543>>>" ++ check (runes_of_ascii "MetaData float {
-}
-
-options {
-    msg_type = ""a	b""
-    i8i8 = true
-    stringy = ""CRC32""
-}
-
-options {
-    len = ""\" ++ [233]%N ++ runes_of_ascii """
-}")).
-Eval vm_compute in ("<<<M906>>>" ++ check (runes_of_ascii "packet A {
-  match k as n {
-    [""a"", ""bb"", ""c c"", ""d"", ""e"", ""f"", ""g"", ""h"", ""i"", ""j"", ""k"", ""l""] : B
-    2 : C
-  },
-}")).
-Eval vm_compute in ("<<<M606>>>" ++ check (runes_of_ascii "MetaData
-    // trailing space 
-    matchKey
-{ u64  // a // b
-,char[] lengthOf `// not a comment`
-    , //	t
-}")).
-Eval vm_compute in ("<<<M909>>>" ++ check (runes_of_ascii "packet A {
-  match k as n {
-    [""a"", 22, ""c c"", 4, ""e"", 66, ""g"", 8, ""i"", 10, ""k"", 12] : B,
-    2 : C
-  },
-}")).
-Eval vm_compute in ("<<<M1905>>>" ++ check (runes_of_ascii "packet o {
-    @tag(42)
-    repeat x {
-        // c
-        char[0123456789] i64_,
-    },
-}
-
-options {
-}")).
-Eval vm_compute in ("<<<M1278>>>" ++ check (runes_of_ascii "packet calculatedFrom { @tag( 4294967296 ) u msg_type , char[ 3 ] crc
-// c
-@lengthOf( len ) `u8 x,` , }")).
-Eval vm_compute in ("<<<M2036>>>" ++ check (runes_of_ascii "
-packet A
-	{
-match
-k as  n  {[
-	1, 
-22
-    , 007,
-
-4  ,5
-    ,
-
-66]
-    :
-
-    B
-    2
-:  C 
-},}")).
-Eval vm_compute in ("<<<M1898>>>" ++ check (runes_of_ascii "// c
-packet o {
-    @tag(42)
-    repeat x {
-        char[0123456789] i64_,
-    },
-}
-
-options {
-}")).
-Eval vm_compute in ("<<<M1156>>>" ++ check (runes_of_ascii "packet Logon { @tag( 42 ) @rightPad ( ' ' ) @leftPad ( ) repeat // c
-trueish { string T , } , }")).
-Eval vm_compute in ("<<<M270>>>" ++ check (runes_of_ascii "packet Pad { @calculatedFrom( ""CRC32"" ) @tag( 7 ) float32 u128 @calculatedFrom(""\n"")
-    , }")).
-Eval vm_compute in ("<<<M1700>>>" ++ check (runes_of_ascii "packet
-A 
-{Inner  {
-u8	x
-    `a
-b` ,
-    Deep
-{
-
-    u8
-y
-`a
-b`
-
-,
-
-    },
-	}	, }")).
-Eval vm_compute in ("<<<M386>>>" ++ check (runes_of_ascii "root packet SimpleMessage {
-	uint16 MsgType `" ++ [28040; 24687; 31867; 22411]%N ++ runes_of_ascii "`,
-	string JsonBody `Json" ++ [23383; 31526; 20018; 28040; 24687; 20307]%N ++ runes_of_ascii "`,
-}")).
-Eval vm_compute in ("<<<M1206>>>" ++ check (runes_of_ascii "// c
-packet o { @tag( 42 ) repeat x { char[ 0123456789 ] i64_ , } , } options { }")).
-Eval vm_compute in ("<<<M1239>>>" ++ check (runes_of_ascii "packet o { @tag( 42 ) repeat x { char[ 0123456789 ] i64_ , } ,
-// c
-} options { }")).
-Eval vm_compute in ("<<<M1378>>>" ++ check (runes_of_ascii "root
-
-    packet P  { 
-repeat
-string
-
-    ss
-
-    ,	repeat 
-u16	ns
-
-,}
-")).
-Eval vm_compute in ("<<<M809>>>" ++ check (runes_of_ascii "packet A {
-  match k as n {
-    [""a"", ""bb"", 007, ""d""] : B,
-    2 : C
-  },
-}")).
-Eval vm_compute in ("<<<M263>>>" ++ check (runes_of_ascii "packet zchar
-{
-    roots
-{ i64 f32a
-    `" ++ [28040; 24687; 31867; 22411]%N ++ runes_of_ascii "`	, float32 zchar , }
-, }")).
-Eval vm_compute in ("<<<M1321>>>" ++ check (runes_of_ascii "MetaData _x { zchar[ 4294967296 ] lengthOf // c
-`// not a comment` , }")).
-Eval vm_compute in ("<<<M1097>>>" ++ check (runes_of_ascii "packet A {
-    match k as n {
-        1 : B,
-        // c
-    },
-}")).
-Eval vm_compute in ("<<<M1346>>>" ++ check (runes_of_ascii "root 
-packet 
-P
-
-{
-
-    hdr
-{ 
-u8
-a  ,}
-    ,
-u8
-x ,
-
-}
-
-")).
-Eval vm_compute in ("<<<M1844>>>" ++ check (runes_of_ascii "root packet A {
-    u8 x `a
-            b
-          c`,
-}")).
-Eval vm_compute in ("<<<M605>>>" ++ check (runes_of_ascii "MetaData
-    // trailing space 
-    matchKey
-{")).
-Eval vm_compute in ("<<<M1331>>>" ++ check (runes_of_ascii "
-root packet	P {
-char  c
-, u8 x 
-, 
-} ")).
-Eval vm_compute in ("<<<M1562>>>" ++ check (runes_of_ascii "packet
-	A	{
-
-u8
-
-    x 
-`a
-b`, 
-}
-
-")).
-Eval vm_compute in ("<<<M1780>>>" ++ check (runes_of_ascii "  root
-packet P  { string 
-s
-	,}
-")).
-Eval vm_compute in ("<<<M328>>>" ++ check (runes_of_ascii "root packet roots
 //x
 // " ++ [27880; 37322]%N ++ runes_of_ascii "
-{}")).
-Eval vm_compute in ("<<<M1906>>>" ++ check (runes_of_ascii "
-options
+options {
+    u8x = ""a\""b""
+}
 
-{zchar= false
+MetaData options1 {
+    uint8 tag `line1
+        line2`,
+    char lengthOf,
+    zchar[0] As,
+}")).
+Eval vm_compute in ("<<<M1089>>>" ++ check (runes_of_ascii "// packet A { u8 x, }
+packet
+    float
+{ @rightPad ( '0'
+// `tick` ""quote"" 'q'
+// " ++ [27880; 37322]%N ++ runes_of_ascii "
+) repeat zchar[ 3 ] u128 `tab	here` , @rightPad //	t
+( '\x00' )
+    @calculatedFrom( """ ++ [28040; 24687]%N ++ runes_of_ascii """
+)
+    //
+    T MetaDataX
+,
+@tag( 007 )zchar[
+42// 50% %s
+] metadata // packet A { u8 x, }
+`say ""hi""` ,
+zchar[ 255 ] zchar
+,
+    } options {// " ++ [128512]%N ++ runes_of_ascii " emoji
+body= """"  } MetaData crc{ zchar[
+    0123456789 ]
+    chars
+`say ""hi""` ,
+    matchKey /// triple
+Header `{ , }`,
+    uint16 i8i8 `{ , }`,  char[4294967296] //
+falsey
+    `a\`,
+    charz pack`crlf
+line`
+, }
+")).
+Eval vm_compute in ("<<<M548>>>" ++ check (runes_of_ascii "packet
+options1 { //
+char[] zchar
+    // 50% %s
+    `" ++ [28040; 24687; 31867; 22411]%N ++ runes_of_ascii "` ,zchar[ 1 ]
+    // trailing space 
+    u8x
+`line1
+line2`, @tag(
+    0)
+    @calculatedFrom(""" ++ [28040; 24687]%N ++ runes_of_ascii """) match repeatCount
+    as float { // " ++ [27880; 37322]%N ++ runes_of_ascii "
+[ 3  ,
+""1"" ,
+255 ,// trailing space 
+""packet"" // 50% %s
+, 0123456789 , 0123456789 ,
+// " ++ [128512]%N ++ runes_of_ascii " emoji
+// 50% %s
+4294967296]:
+tag ,4294967296 : /// triple
+float , } , repeat
+string roots// " ++ [128512]%N ++ runes_of_ascii " emoji
+`" ++ [28040; 24687; 31867; 22411]%N ++ runes_of_ascii "` , f64 int, @leftPad ( '\x00' ) uint8 packetx , repeat
+    char[]
+float , uint64  zchar @lengthOf( msg_type )`` , }
+")).
+Eval vm_compute in ("<<<M3394>>>" ++ check (runes_of_ascii "// top
+MetaData // c0
+Pad // c1
+{ // c2
+x_y_z // c3
+a1 // c4
+, // c5
+int8 // c6
+trueish // c7
+`two words` // c8
+, // c9
+char[] // c10
+x_y_z // c11
+`{ , }` // c12
+, // c13
+zchar[ // c14
+1 // c15
+] // c16
+pack // c17
+`
+` // c18
+, // c19
+len // c20
+i64_ // c21
+, // c22
+} // c23
+MetaData // c24
+crc // c25
+{ // c26
+zchar[ // c27
+7 // c28
+] // c29
+Z9_ // c30
+, // c31
+char[] // c32
+options1 // c33
+, // c34
+uint32 // c35
+options1 // c36
+, // c37
+u // c38
+MetaDataX // c39
+, // c40
+} // c41
+")).
+Eval vm_compute in ("<<<M443>>>" ++ check (runes_of_ascii "//x
+root
+// " ++ [27880; 37322]%N ++ runes_of_ascii "
+// `tick` ""quote"" 'q'
+packet o
+    {
+@calculatedFrom( ""a\\""
+) // 50% %s
+f64  a1 ,// @lengthOf(
+f64 charz
+@calculatedFrom( ""abc""
+    )
+,zchar[
+0123456789
+]asx // trailing space 
+,len
+    @calculatedFrom( ""a\\"" ), }
+packet tag
+{
+i64 Pad @lengthOf( Header )
+    ,
+} packet msg_type {
+    @lengthOf(
+Header )string matchKey @calculatedFrom(
+""it's"" ) , repeat
+    string
+msg_type ,
+    string pack ,
+    zchar[
+// " ++ [27880; 37322]%N ++ runes_of_ascii "
+/// triple
+00] x_y_z
+,
+    }
+")).
+Eval vm_compute in ("<<<M4332>>>" ++ check (runes_of_ascii "
+// top
 
-;}")).
-Eval vm_compute in ("<<<M1187>>>" ++ check (runes_of_ascii "options { // c
-u8x = 3 }")).
-Eval vm_compute in ("<<<M1567>>>" ++ check (runes_of_ascii "packet A {
-    // a
+  packet 	 // c0a
+// c0b
+	  B
+        // c1
+    	{ 	 // c2a
+      // c2b
+
+	u8// c3a
+// c3b
+  a // c4
+	,  
+  // c5
+	}	// c6
+  root
+
+packet// c8a
+
+  // c8b
+	  P  {	// c10
+	  u8// c11a
+
+  // c11b
+K// c12
+	, // c13
+		match 
+K
+    // c15
+
+	as  // c16
+  	Body{ 	 // c18a
+    // c18b
+		1  // c19a
+    // c19b
+	  :B 	 // c21
+	  , } ,
+
+u16	// c25
+    L@lengthOf(// c27a
+// c27b
+		Body 	 // c28
+	)// c29
+,  // c30
+  } 	 // c31
+")).
+Eval vm_compute in ("<<<M3835>>>" ++ check (runes_of_ascii "MetaData uint8x {
+    uint8 u,
+    int16 packetx,
+    char[7] metadata `line1
+    line2`,
+    char[] i8i8 `crlf
+    line`,
+}
+
+packet u {
+    string x_y_z,
+    repeat Foo asx,
+    trueish {
+        u @lengthOf(calculatedFrom),
+        i8i8 {
+            repeat char[65535] Logon,
+        },
+        char[] o,
+        f64 repeatCount `
+        `,
+    },
+    packetx u128,
+}
+
+options {
+    roots = false;
+    trueish = char[1];
 }")).
-Eval vm_compute in ("<<<M996>>>" ++ check (runes_of_ascii "// c" ++ [5760]%N ++ runes_of_ascii "
-packet A {
+Eval vm_compute in ("<<<M4302>>>" ++ check (runes_of_ascii "  MetaData
+crc
+
+{
+    int
+    matchKey , i32
+	msg_type
+
+`tab	here`,
+i8 As
+	`it's`
+,	f64  asx  ,  // " ++ [27880; 37322]%N ++ runes_of_ascii "
+  }	root
+
+packet
+	i8i8
+
+    { match
+	body as /// triple
+  	o{
+3 :	i8i8
+
+    , 007
+: u128
+    ,
+10
+
+: calculatedFrom 
+,
+	[  // trailing space 
+
+	3	,
+    0
+] 
+:
+
+    rootA 
+  // @lengthOf(
+      ,
+	} ,
+} 
+	    // " ++ [128512]%N ++ runes_of_ascii " emoji
+	  MetaData Pad
+
+{ i32 
+    // " ++ [27880; 37322]%N ++ runes_of_ascii "
+	// " ++ [128512]%N ++ runes_of_ascii " emoji
+  asx
+, }// packet A { u8 x, }
+ 
+")).
+Eval vm_compute in ("<<<M639>>>" ++ check (runes_of_ascii "options
+    {  }root packet repeatCount {
+@lengthOf( calculatedFrom// packet A { u8 x, }
+)
+    float  @calculatedFrom(""a\\"" ),
+zchar[
+007]
+    zchar `" ++ [28040; 24687; 31867; 22411]%N ++ runes_of_ascii "`
+, @tag(3  )uint32 BodyLength @calculatedFrom(""a\\""
+) `
+`
+, @calculatedFrom(
+""1""
+    )uint64 leftPad
+    ,@rightPad ('\x00' )
+    @rightPad ( '\x00' )
+    repeat u128 , } options { } MetaData MetaDataX {msg_type
+Z9_`u8 x,` ,  string	Logon , }")).
+Eval vm_compute in ("<<<M156>>>" ++ check (runes_of_ascii "options {// @lengthOf(
+float=
+    char[];
+T
+    = false ;
+A = char[] ; options1 = true ;
+    matchKey = f64  ;} MetaData
+u8x { crc msg_type
+    ,	repeatCount Pad `// not a comment` , uint32 tag `" ++ [28040; 24687; 31867; 22411]%N ++ runes_of_ascii "`
+// packet A { u8 x, }
+//x
+, int32 repeatCount ,packetx
+falsey,
+    }options
+{ trueish = string
+    // trailing space 
+    ;
+    i64_ =""a\\"" i64_ = int64	;
+lengthOf =string; }
+")).
+Eval vm_compute in ("<<<M1383>>>" ++ check (runes_of_ascii "
+root packet
+    //x
+    o
+{	@tag(65535 ) // c
+rootA
+@calculatedFrom(
+    ""a	b"")
+`two words` ,
+    // a // b
+    }
+    // a // b
+    root packet
+    // trailing space 
+    Foo { @lengthOf(x_y_z
+    )@tag( 0123456789 ) //x
+@calculatedFrom(	""" ++ [128512]%N ++ runes_of_ascii """ )
+i8i8 , f32 int/// triple
+,
+@calculatedFrom( ""it's""
+)
+i64 MetaDataX @calculatedFrom( ""x y""
+    ) `` , } packet zchar
+{	}
+")).
+Eval vm_compute in ("<<<M1215>>>" ++ check (runes_of_ascii "//
+packet BodyLength //x
+{//x
+body , a1 ,@tag( 255) // " ++ [128512]%N ++ runes_of_ascii " emoji
+repeat u128  { repeat
+    string_ , repeatCount  pack // @lengthOf(
+, repeat	stringy {zchar[
+10] crc
+    ``	, i16 leftPad  @calculatedFrom(""it's"" )
+// `tick` ""quote"" 'q'
+//	t
+`` , string
+roots @lengthOf( u8x ) ,
+//	t
+// 50% %s
+} , f64
+Foo
+    @lengthOf(
+BodyLength// a // b
+)  ,
+    },}
+")).
+Eval vm_compute in ("<<<M4241>>>" ++ check (runes_of_ascii "  MetaData options1 
+
+// c
+    {
+	char[]
+x
+,}
+MetaData  float {pack
+
+u128
+
+,	} packet	len
+	{ 
+i32
+float
+
+@lengthOf(
+_x	)	, 
+@lengthOf(
+
+    Packet )
+repeat	crc 
+x_y_z `tab	here`	, @tag(
+
+    00 )	repeat
+
+    string_  pack,
+	@rightPad (
+    '\x00'
+) @rightPad ( 
+'0' )// 50% %s
+
+@calculatedFrom( 	 //
+  	""" ++ [28040; 24687]%N ++ runes_of_ascii """ )
+string a1
+,
+	} ")).
+Eval vm_compute in ("<<<M4450>>>" ++ check (runes_of_ascii "root	packet
+	tag{
+u32	// @lengthOf(
+    charz
+    ,
+@tag(
+	65535  )
+@calculatedFrom(
+""`tick`"" 
+)T @lengthOf(  chars
+
+    ) // 50% %s
+,
+
+@tag( 
+4294967296 
+)
+        // @lengthOf(
+    match 
+calculatedFrom
+    as BodyLength {4294967296:uint8x  , [	""abc"" ,
+""a\""b""  //	t
+
+	,
+""{,}""
+	,
+3
+
+] 
+:	u8x,
+	""" ++ [28040; 24687]%N ++ runes_of_ascii """
+	:
+x, }
+
+    ,
+	}")).
+Eval vm_compute in ("<<<M1065>>>" ++ check (runes_of_ascii "packet
+float{ roots`" ++ [28040; 24687; 31867; 22411]%N ++ runes_of_ascii "`
+,@tag(
+// `tick` ""quote"" 'q'
+// packet A { u8 x, }
+0123456789 ) // packet A { u8 x, }
+@lengthOf( calculatedFrom )  @calculatedFrom( """") T ``
+, @leftPad (	' ' ) repeat Logon
+{// trailing space 
+string matchKey  @lengthOf( i8i8 )
+    , repeat	i64_ , } ,repeat uint8 u8x	`100% of %d` ,
+}
+")).
+Eval vm_compute in ("<<<M255>>>" ++ check (runes_of_ascii "packet trueish { // @lengthOf(
+i8
+    Pad , repeat Foo // " ++ [27880; 37322]%N ++ runes_of_ascii "
+stringy , }  MetaData _x	{  } packet calculatedFrom
+    {repeat char[]//	t
+uint8x `tab	here` ,
+    @leftPad (' ' )
+match chars
+as metadata{  00 : a1
+""it's"" : _x , } ,}//	t
+packet
+    //x
+    msg_type{char[] // " ++ [128512]%N ++ runes_of_ascii " emoji
+uint8x , }
+//	t
+")).
+Eval vm_compute in ("<<<M1038>>>" ++ check (runes_of_ascii "packet a1
+    { match Pad as As
+    {
+""abc""
+    :// `tick` ""quote"" 'q'
+falsey, 00:  _x ,	[ """ ++ [28040; 24687]%N ++ runes_of_ascii """ // " ++ [27880; 37322]%N ++ runes_of_ascii "
+, 255	]
+: Packet
+    , },Z9_ {int16	x @calculatedFrom(
+    // packet A { u8 x, }
+    ""1"" ), string asx
+    ,	repeat options1`two words` // 50% %s
+, } ,
+Pad `100% of %d` ,
+    x `" ++ [28040; 24687; 31867; 22411]%N ++ runes_of_ascii "` , }")).
+Eval vm_compute in ("<<<M2009>>>" ++ check (runes_of_ascii "packet	packetx { // trailing space 
+x_y_z
+{
+string
+charz ,
+string x// @lengthOf(
+`two words`
+    ,  u8x { // `tick` ""quote"" 'q'
+charz `100% of %d` // packet A { u8 x, }
+,}// " ++ [27880; 37322]%N ++ runes_of_ascii "
+,} , }
+    // a // b
+    packet metadata {  @leftPad ( '0') repeat i32 options1 uint64 u64 uint8x , }
+")).
+Eval vm_compute in ("<<<M1884>>>" ++ check (runes_of_ascii "packet	packetx { // trailing space 
+x_y_z
+{
+string
+charz i16
+string x// @lengthOf(
+`two words`
+    ,  u8x { // `tick` ""quote"" 'q'
+charz `100% of %d` // packet A { u8 x, }
+,}// " ++ [27880; 37322]%N ++ runes_of_ascii "
+,} , }
+    // a // b
+    packet metadata {  @leftPad ( '0') repeat i32 options1 ,u64 uint8x , }
+")).
+Eval vm_compute in ("<<<M1854>>>" ++ check (runes_of_ascii "packet	{ packetx // trailing space 
+x_y_z
+{
+string
+charz ,
+string x// @lengthOf(
+`two words`
+    ,  u8x { // `tick` ""quote"" 'q'
+charz `100% of %d` // packet A { u8 x, }
+,}// " ++ [27880; 37322]%N ++ runes_of_ascii "
+,} , }
+    // a // b
+    packet metadata {  @leftPad ( '0') repeat i32 options1 ,u64 uint8x , }
+")).
+Eval vm_compute in ("<<<M1993>>>" ++ check (runes_of_ascii "packet	packetx { // trailing space 
+x_y_z
+{
+string
+charz ,
+string x// @lengthOf(
+`two words`
+    ,  u8x { // `tick` ""quote"" 'q'
+charz `100% of %d` // packet A { u8 x, }
+,}// " ++ [27880; 37322]%N ++ runes_of_ascii "
+,} , }
+    // a // b
+    packet metadata {  @leftPad ( '0') i32 repeat options1 ,u64 uint8x , }
+")).
+Eval vm_compute in ("<<<M1851>>>" ++ check (runes_of_ascii "root	packetx { // trailing space 
+x_y_z
+{
+string
+charz ,
+string x// @lengthOf(
+`two words`
+    ,  u8x { // `tick` ""quote"" 'q'
+charz `100% of %d` // packet A { u8 x, }
+,}// " ++ [27880; 37322]%N ++ runes_of_ascii "
+,} , }
+    // a // b
+    packet metadata {  @leftPad ( '0') repeat i32 options1 ,u64 uint8x , }
+")).
+Eval vm_compute in ("<<<M1916>>>" ++ check (runes_of_ascii "packet	packetx { // trailing space 
+x_y_z
+{
+string
+charz ,
+string x// @lengthOf(
+`two words`
+    ,  u8x { // `tick` ""quote"" 'q'
+ `100% of %d` // packet A { u8 x, }
+,}// " ++ [27880; 37322]%N ++ runes_of_ascii "
+,} , }
+    // a // b
+    packet metadata {  @leftPad ( '0') repeat i32 options1 ,u64 uint8x , }
+")).
+Eval vm_compute in ("<<<M3516>>>" ++ check (runes_of_ascii "
+packet
+
+P1 {
+
+u8  a	, }
+packet  P2
+    {
+    P1
+	,  }
+
+    packet  P3
+	{ P2
+
+    , P1 , } 
+packet P4	{ repeat	P3 ,
+P2
+    ,}	root
+packet
+    P5{ P4
+,
+P3,
+    P1
+, u8
+K , 
+match K	as
+
+Body {
+
+4: 
+P4
+,
+
+3
+    : P3  ,2
+
+    : P2
+,
+1
+
+    :
+
+P1
+,
+
+    }	,}
+")).
+Eval vm_compute in ("<<<M294>>>" ++ check (runes_of_ascii "//x
+root packet
+    T {
+tag// @lengthOf(
+o	,
+@calculatedFrom( ""a\\"" )// packet A { u8 x, }
+@calculatedFrom( """ ++ [128512]%N ++ runes_of_ascii """ )u8
+packetx ,uint32 i64_// trailing space 
+@lengthOf( asx) , char[
+    // " ++ [27880; 37322]%N ++ runes_of_ascii "
+    42
+//
+// `tick` ""quote"" 'q'
+] Packet @lengthOf(
+metadata) `say ""hi""` ,}")).
+Eval vm_compute in ("<<<M2160>>>" ++ check (runes_of_ascii "packet// packet A { u8 x, }
+repeatCount	{// packet A { u8 x, }
+@leftPad ( '\x00'
+) repeat u8x MetaDataX `crlf
+line`,
+    repeat
+    char[] MetaDataX
+    ,
+u64	uint8x@calculatedFrom(""a\""b""
+// c
+// packet A { u8 x, }
+) `tab	here`
+, ,//
+}MetaData pack
+    {
+    }
+")).
+Eval vm_compute in ("<<<M2066>>>" ++ check (runes_of_ascii "packet// packet A { u8 x, }
+repeatCount	{// packet A { u8 x, }
+( @leftPad '\x00'
+) repeat u8x MetaDataX `crlf
+line`,
+    repeat
+    char[] MetaDataX
+    ,
+u64	uint8x@calculatedFrom(""a\""b""
+// c
+// packet A { u8 x, }
+) `tab	here`
+,//
+}MetaData pack
+    {
+    }
+")).
+Eval vm_compute in ("<<<M2069>>>" ++ check (runes_of_ascii "packet// packet A { u8 x, }
+repeatCount	{// packet A { u8 x, }
+@leftPad  '\x00'
+) repeat u8x MetaDataX `crlf
+line`,
+    repeat
+    char[] MetaDataX
+    ,
+u64	uint8x@calculatedFrom(""a\""b""
+// c
+// packet A { u8 x, }
+) `tab	here`
+,//
+}MetaData pack
+    {
+    }
+")).
+Eval vm_compute in ("<<<M1539>>>" ++ check (runes_of_ascii "packet calculatedFrom
+{ @calculatedFrom( ""a\\"" ) zchar[ 4294967296 ]
+calculatedFrom@lengthOf( pack )	`100% of %d` ,char[]body@calculatedFrom( ""// no comment"" )  ,
+@tag( 007) //x
+int8
+leftPad leftPad`it's` , repeat pack
+    { repeat char[ 3] body
+,},
 }")).
-Eval vm_compute in ("<<<M768>>>" ++ check ([65533; 65533]%N ++ runes_of_ascii "Oa" ++ [65533]%N ++ runes_of_ascii "?" ++ [65533; 65533; 65533; 65533]%N ++ runes_of_ascii "B" ++ [65533]%N ++ runes_of_ascii "'" ++ [65533]%N ++ runes_of_ascii "f" ++ [65533]%N ++ runes_of_ascii "l")).
-Eval vm_compute in ("<<<M749>>>" ++ check (runes_of_ascii ":9,Tf#g ""r%g_")).
-Eval vm_compute in ("<<<M999>>>" ++ check (runes_of_ascii "// c" ++ [8192]%N)).
+Eval vm_compute in ("<<<M1494>>>" ++ check (runes_of_ascii "packet calculatedFrom
+{ @calculatedFrom( ""a\\"" ) zchar[ 4294967296 ]
+calculatedFrom@lengthOf( pack )	`100% of %d` ,char[]body body@calculatedFrom( ""// no comment"" )  ,
+@tag( 007) //x
+int8
+leftPad`it's` , repeat pack
+    { repeat char[ 3] body
+,},
+}")).
+Eval vm_compute in ("<<<M1424>>>" ++ check (runes_of_ascii "packet calculatedFrom
+{ { @calculatedFrom( ""a\\"" ) zchar[ 4294967296 ]
+calculatedFrom@lengthOf( pack )	`100% of %d` ,char[]body@calculatedFrom( ""// no comment"" )  ,
+@tag( 007) //x
+int8
+leftPad`it's` , repeat pack
+    { repeat char[ 3] body
+,},
+}")).
+Eval vm_compute in ("<<<M1530>>>" ++ check (runes_of_ascii "packet calculatedFrom
+{ @calculatedFrom( ""a\\"" ) zchar[ 4294967296 ]
+calculatedFrom@lengthOf( pack )	`100% of %d` ,char[]body@calculatedFrom( ""// no comment"" )  ,
+@tag( 007 int8 //x
+)
+leftPad`it's` , repeat pack
+    { repeat char[ 3] body
+,},
+}")).
+Eval vm_compute in ("<<<M1476>>>" ++ check (runes_of_ascii "packet calculatedFrom
+{ @calculatedFrom( ""a\\"" ) zchar[ 4294967296 ]
+calculatedFrom@lengthOf( pack ;	`100% of %d` ,char[]body@calculatedFrom( ""// no comment"" )  ,
+@tag( 007) //x
+int8
+leftPad`it's` , repeat pack
+    { repeat char[ 3] body
+,},
+}")).
+Eval vm_compute in ("<<<M1438>>>" ++ check (runes_of_ascii "packet calculatedFrom
+{ @calculatedFrom( ""a\\""  zchar[ 4294967296 ]
+calculatedFrom@lengthOf( pack )	`100% of %d` ,char[]body@calculatedFrom( ""// no comment"" )  ,
+@tag( 007) //x
+int8
+leftPad`it's` , repeat pack
+    { repeat char[ 3] body
+,},
+}")).
+Eval vm_compute in ("<<<M1521>>>" ++ check (runes_of_ascii "packet calculatedFrom
+{ @calculatedFrom( ""a\\"" ) zchar[ 4294967296 ]
+calculatedFrom@lengthOf( pack )	`100% of %d` ,char[]body@calculatedFrom( ""// no comment"" )  ,
+{ 007) //x
+int8
+leftPad`it's` , repeat pack
+    { repeat char[ 3] body
+,},
+}")).
+Eval vm_compute in ("<<<M565>>>" ++ check (runes_of_ascii "packet chars {
+    repeat
+uint64 repeatCount`100% of %d` ,
+    calculatedFrom{ string body@calculatedFrom( ""\n"")
+    `doc`
+, T
+@calculatedFrom( ""x y"") , },repeat
+    zchar[
+0123456789
+]pack // 50% %s
+, repeat
+    float
+asx`tab	here`,  }
+")).
+Eval vm_compute in ("<<<M1428>>>" ++ check (runes_of_ascii "packet calculatedFrom
+{  ""a\\"" ) zchar[ 4294967296 ]
+calculatedFrom@lengthOf( pack )	`100% of %d` ,char[]body@calculatedFrom( ""// no comment"" )  ,
+@tag( 007) //x
+int8
+leftPad`it's` , repeat pack
+    { repeat char[ 3] body
+,},
+}")).
+Eval vm_compute in ("<<<M740>>>" ++ check (runes_of_ascii "MetaData o { Foo repeatCount `" ++ [28040; 24687; 31867; 22411]%N ++ runes_of_ascii "`
+    , trueish
+len, uint32 Logon `say ""hi""` , }MetaData pack { char[]
+    trueish  `// not a comment` ,i8// 50% %s
+i64_ ,	} packet crc { char[
+00
+    // trailing space 
+    ] o``, }
+")).
+Eval vm_compute in ("<<<M45>>>" ++ check (runes_of_ascii "options // 50% %s
+{ }
+    root //x
+packet Logon { match u8x as x{
+[ 007
+    ,
+    255 , 42
+,007,
+    255
+    , 42 ,
+    7 ,""it's""] : zchar
+    // " ++ [128512]%N ++ runes_of_ascii " emoji
+    ,
+    } // " ++ [27880; 37322]%N ++ runes_of_ascii "
+,string Header @lengthOf( o
+    ) , }")).
+Eval vm_compute in ("<<<M837>>>" ++ check (runes_of_ascii "// trailing space 
+MetaData
+leftPad{float32 MetaDataX
+    , } options { } packet u128{
+    tag Packet `{ , }`  ,
+uint8x
+    @lengthOf( chars
+// `tick` ""quote"" 'q'
+// @lengthOf(
+)  `100% of %d` , }
+
+")).
+Eval vm_compute in ("<<<M570>>>" ++ check (runes_of_ascii "packet Packet
+{
+    u64 MetaDataX  , @lengthOf(u128
+    ) @calculatedFrom(
+""" ++ [28040; 24687]%N ++ runes_of_ascii """	) @tag( 1
+)// c
+repeat Z9_	u128, }root packet
+chars{
+    @tag(
+255 )char[007 ]	chars @lengthOf( i64_ ),
+    }
+")).
+Eval vm_compute in ("<<<M4508>>>" ++ check (runes_of_ascii "packet body {
+    match body as x {
+        42 : msg_type,
+        255 : options1,
+        65535 : u,
+        //	t
+        // " ++ [27880; 37322]%N ++ runes_of_ascii "
+        """ ++ [233]%N ++ runes_of_ascii "t" ++ [233]%N ++ runes_of_ascii """ : a1,
+        ""packet"" : lengthOf,
+    },
+}")).
+Eval vm_compute in ("<<<M4066>>>" ++ check (runes_of_ascii "packet
+    body
+
+{ match body  as
+x	{
+
+42
+
+    : 
+msg_type	255 : 
+options1
+65535
+:u 
+        //
+  	, 
+
+//	t
+    // " ++ [27880; 37322]%N ++ runes_of_ascii "
+""" ++ [233]%N ++ runes_of_ascii "t" ++ [233]%N ++ runes_of_ascii """:
+	a1""packet"" :lengthOf
+
+    , 
+}  // " ++ [27880; 37322]%N ++ runes_of_ascii "
+    	, 
+}
+")).
+Eval vm_compute in ("<<<M3612>>>" ++ check (runes_of_ascii "
+
+  MetaData
+    metadata {
+}MetaData rootA {
+    i8
+    i64_	, 
+roots  
+  // c
+      options1
+    `a\`
+,
+lengthOf
+    Header
+    ,
+	Z9_	Foo 
+,  int16	BodyLength
+    , } ")).
+Eval vm_compute in ("<<<M1052>>>" ++ check (runes_of_ascii "MetaData falsey
+{ }	MetaData trueish { }MetaData	float {Z9_ // " ++ [128512]%N ++ runes_of_ascii " emoji
+float
+,
+i8 options1	`two words`
+    // 50% %s
+    ,
+    string u , // c
+}
+    packet T{  }
+
+")).
+Eval vm_compute in ("<<<M1649>>>" ++ check (runes_of_ascii "options { } packet packet Packet{char[] i64_ ,
+@tag(
+    255) match
+crc as i8i8{""{,}"" : trueish """" : Pad , ""a\\"" :
+Foo ,
+    1 :packetx
+, """ ++ [128512]%N ++ runes_of_ascii """ : trueish , } , }")).
+Eval vm_compute in ("<<<M1770>>>" ++ check (runes_of_ascii "options { } packet Packet{char[] i64_ ,
+@tag(
+    255) match
+crc as i8i8{""{,}"" : trueish """" : Pad , ""a\\"" :
+Foo Header
+    1 :packetx
+, """ ++ [128512]%N ++ runes_of_ascii """ : trueish , } , }")).
+Eval vm_compute in ("<<<M2376>>>" ++ check (runes_of_ascii "
+packet MetaDataX
+{
+    @leftPad
+( // a // b
+'0~'
+) i8 u @lengthOf(
+MetaDataX
+    ) `say ""hi""` ,	} MetaData BodyLength {
+    asx
+x_y_z `" ++ [233]%N ++ runes_of_ascii "`
+, uint64 u128 , }
+")).
+Eval vm_compute in ("<<<M2420>>>" ++ check (runes_of_ascii "
+packet MetaDataX
+{
+    @leftPad
+( // a // b
+'0'
+) i8 u @lengthOf(
+MetaDataX
+    ) , `say ""hi""`	} MetaData BodyLength {
+    asx
+x_y_z `" ++ [233]%N ++ runes_of_ascii "`
+, uint64 u128 , }
+")).
+Eval vm_compute in ("<<<M1843>>>" ++ check (runes_of_ascii "options $ { } packet Packet{char[] i64_ ,
+@tag(
+    255) match
+crc as i8i8{""{,}"" : trueish """" : Pad , ""a\\"" :
+Foo ,
+    1 :packetx
+, """ ++ [128512]%N ++ runes_of_ascii """ : trueish , } , }")).
+Eval vm_compute in ("<<<M2133>>>" ++ check (runes_of_ascii "packet// packet A { u8 x, }
+repeatCount	{// packet A { u8 x, }
+@leftPad ( '\x00'
+) repeat u8x MetaDataX `crlf
+line`,
+    repeat
+    char[] MetaDataX
+    ,")).
+Eval vm_compute in ("<<<M1755>>>" ++ check (runes_of_ascii "options { } packet Packet{char[] i64_ ,
+@tag(
+    255) match
+crc as i8i8{""{,}"" : trueish """" : Pad , int64 :
+Foo ,
+    1 :packetx
+, """ ++ [128512]%N ++ runes_of_ascii """ : trueish , } , }")).
+Eval vm_compute in ("<<<M1737>>>" ++ check (runes_of_ascii "options { } packet Packet{char[] i64_ ,
+@tag(
+    255) match
+crc as i8i8{""{,}"" : trueish """"  Pad , ""a\\"" :
+Foo ,
+    1 :packetx
+, """ ++ [128512]%N ++ runes_of_ascii """ : trueish , } , }")).
+Eval vm_compute in ("<<<M2443>>>" ++ check (runes_of_ascii "
+packet MetaDataX
+{
+    @leftPad
+( // a // b
+'0'
+) i8 u @lengthOf(
+MetaDataX
+    ) `say ""hi""` ,	} MetaData BodyLength {
+    asx
+x_y_z `" ++ [233]%N ++ runes_of_ascii "`
+, uint64 u128")).
+Eval vm_compute in ("<<<M3684>>>" ++ check (runes_of_ascii "// trailing space 
+MetaData  stringy{
+}
+	root
+
+packet 
+	    // a // b
+
+rootA
+    {  match lengthOf
+
+as
+
+Pad
+
+{	""it's"" :
+    lengthOf	,
+}
+    ,  }
+")).
+Eval vm_compute in ("<<<M2389>>>" ++ check (runes_of_ascii "
+packet MetaDataX
+{
+    @leftPad
+( // a // b
+'0'
+) i8 u @lengthOf(
+MetaDataX
+    )  ,	} MetaData BodyLength {
+    asx
+x_y_z `" ++ [233]%N ++ runes_of_ascii "`
+, uint64 u128 , }
+")).
+Eval vm_compute in ("<<<M247>>>" ++ check (runes_of_ascii "
+MetaData// @lengthOf(
+Logon{ zchar[ 10 ] float `two words` , string calculatedFrom ,u8 tag `// not a comment` // " ++ [27880; 37322]%N ++ runes_of_ascii "
+,  string int
+,
+} // " ++ [27880; 37322]%N)).
+Eval vm_compute in ("<<<M1194>>>" ++ check (runes_of_ascii "//
+MetaData
+    Foo { /// triple
+x_y_z chars //
+, uint16 Header// @lengthOf(
+,zchar[ 0
+    ]
+tag ,
+    i32 falsey , } // trailing space ")).
+Eval vm_compute in ("<<<M4050>>>" ++ check (runes_of_ascii "
+MetaData 
+float
+    {uint8	// c
+  BodyLength , }
+	MetaData  charz
+	{ float32 trueish`a\`
+	,
+    i16
+
+    metadata	`say ""hi""` , 
+}
+")).
+Eval vm_compute in ("<<<M902>>>" ++ check (runes_of_ascii "options { zchar = int16; Z9_=	"""";rootA= 007  ; i64_
+    = ""abc""
+    ;  msg_type =
+    //x
+    true
+}
+packet Logon { string_`" ++ [233]%N ++ runes_of_ascii "` ,}")).
+Eval vm_compute in ("<<<M3262>>>" ++ check (runes_of_ascii "MetaData // c
+metadata { } MetaData rootA { i8 i64_ , roots options1 `a\` , lengthOf Header , Z9_ Foo , int16 BodyLength , }")).
+Eval vm_compute in ("<<<M3294>>>" ++ check (runes_of_ascii "MetaData metadata { } MetaData rootA { i8 i64_ , roots options1 `a\` , lengthOf Header , // c
+Z9_ Foo , int16 BodyLength , }")).
+Eval vm_compute in ("<<<M1138>>>" ++ check (runes_of_ascii "
+packet msg_type
+{	i8
+roots
+`
+` ,uint8 zchar@calculatedFrom(
+    ""1""
+    ) `` , }MetaData packetx {
+uint16 Z9_
+`` , }
+")).
+Eval vm_compute in ("<<<M1072>>>" ++ check (runes_of_ascii "packet roots {
+    @lengthOf(As
+) i8i8
+@lengthOf(i8i8 // 50% %s
+)`// not a comment`
+// packet A { u8 x, }
+// " ++ [27880; 37322]%N ++ runes_of_ascii "
+, }")).
+Eval vm_compute in ("<<<M1060>>>" ++ check (runes_of_ascii "
+packet float{ x
+`
+` // trailing space 
+, match	matchKey as Z9_	{ 10 :x	,
+}
+,
+Logon `// not a comment` , }
+
+")).
+Eval vm_compute in ("<<<M3333>>>" ++ check (runes_of_ascii "MetaData float { uint8 BodyLength , } MetaData
+// c
+charz { float32 trueish `a\` , i16 metadata `say ""hi""` , }")).
+Eval vm_compute in ("<<<M3098>>>" ++ check (runes_of_ascii "packet A {
+    match k as n {
+        ""\
+"" : B,
+        [""\
+"", 1] : C,
+        [1,2,3,4,5,""\
+""] : D,
+    },
+}")).
+Eval vm_compute in ("<<<M4131>>>" ++ check (runes_of_ascii "packet charz {
+    roots @calculatedFrom(""a\\"") `a\`,
+    @tag(7)
+    len string_,// a // b
+}// @lengthOf(")).
+Eval vm_compute in ("<<<M3469>>>" ++ check (runes_of_ascii "
+
+  options
+    { 
+FixedStringPadFromLeft
+    = true;
+}
+    root
+packet
+
+P 
+{	char[
+
+    4] z,
+}
+")).
+Eval vm_compute in ("<<<M1751>>>" ++ check (runes_of_ascii "options { } packet Packet{char[] i64_ ,
+@tag(
+    255) match
+crc as i8i8{""{,}"" : trueish """" : Pad")).
+Eval vm_compute in ("<<<M992>>>" ++ check (runes_of_ascii "root packet Packet
+//	t
+// packet A { u8 x, }
+{ @lengthOf( msg_type ) uint32 calculatedFrom , }
+")).
+Eval vm_compute in ("<<<M2351>>>" ++ check (runes_of_ascii "
+packet MetaDataX
+{
+    @leftPad
+( // a // b
+'0'
+) i8 u @lengthOf(
+MetaDataX
+    ) `say ""hi""`")).
+Eval vm_compute in ("<<<M340>>>" ++ check (runes_of_ascii "options {
+    repeatCount
+    =
+    zchar[	10 ]; falsey = ""// no comment""
+; i8i8 = 42 } 	 ")).
+Eval vm_compute in ("<<<M4121>>>" ++ check (runes_of_ascii "
+options{ 
+a=
+char[
+
+3
+] ;
+b
+=zchar[0  ]
+
+c =
+
+char[]
+
+d
+=  string e
+
+    =
+    u8
+}")).
+Eval vm_compute in ("<<<M2226>>>" ++ check (runes_of_ascii "MetaData _x {x string `// not a comment` , string
+i64_ // trailing space 
+`a\` ,
+    }
+")).
+Eval vm_compute in ("<<<M4279>>>" ++ check (runes_of_ascii "MetaData _x {
+    // c
+    f64 charz `tab	here`,
+}
+
+options {
+    BodyLength = """ ++ [233]%N ++ runes_of_ascii "t" ++ [233]%N ++ runes_of_ascii """;
+}")).
+Eval vm_compute in ("<<<M2227>>>" ++ check (runes_of_ascii "MetaData _x {as x `// not a comment` , string
+i64_ // trailing space 
+`a\` ,
+    }
+")).
+Eval vm_compute in ("<<<M3756>>>" ++ check (runes_of_ascii "options
+
+    {
+MetaDataX =0123456789 
+;
+pack
+
+    = 
+""{,}""  ;string_ 
+=i16	}
+")).
+Eval vm_compute in ("<<<M2938>>>" ++ check (runes_of_ascii "packet A {
+  match k as n {
+    [1, ""bb"", 007, ""d"", 5, ""f""] : B
+    2 : C
+  },
+}")).
+Eval vm_compute in ("<<<M3772>>>" ++ check (runes_of_ascii "MetaData _x {
+    f64 charz `tab	here`,
+}
+
+options {
+    BodyLength = """ ++ [233]%N ++ runes_of_ascii "t" ++ [233]%N ++ runes_of_ascii """;
+}")).
+Eval vm_compute in ("<<<M3366>>>" ++ check (runes_of_ascii "MetaData _x // c
+{ f64 charz `tab	here` , } options { BodyLength = """ ++ [233]%N ++ runes_of_ascii "t" ++ [233]%N ++ runes_of_ascii """ ; }")).
+Eval vm_compute in ("<<<M1190>>>" ++ check (runes_of_ascii "  root packet pack
+{ @calculatedFrom(
+"""") @tag(4294967296 )	uint8 tag, }
+")).
+Eval vm_compute in ("<<<M2920>>>" ++ check (runes_of_ascii "packet A {
+  match k as n {
+    [1, 22, 007, 4, 5] : B,
+    2 : C
+  },
+}")).
+Eval vm_compute in ("<<<M1386>>>" ++ check (runes_of_ascii "
+packet
+Z9_ { @lengthOf( a1
+    /// triple
+    )	i32 stringy
+    ,}
+
+")).
+Eval vm_compute in ("<<<M3412>>>" ++ check (runes_of_ascii "packet o { @tag( 4294967296 ) // c
+options1 @lengthOf( u8x ) `" ++ [233]%N ++ runes_of_ascii "` , }")).
+Eval vm_compute in ("<<<M629>>>" ++ check (runes_of_ascii "MetaData len	{} options // " ++ [128512]%N ++ runes_of_ascii " emoji
+{zchar
+    = '0' ; } /// triple")).
+Eval vm_compute in ("<<<M66>>>" ++ check (runes_of_ascii "options {// " ++ [27880; 37322]%N ++ runes_of_ascii "
+Z9_ =	' ' ; // @lengthOf(
+repeatCount	='\x00' ; }")).
+Eval vm_compute in ("<<<M550>>>" ++ check (runes_of_ascii "options {float = zchar[
+//x
+// trailing space 
+007
+    ] ; }
+")).
+Eval vm_compute in ("<<<M2726>>>" ++ check (runes_of_ascii "MetaData options char[] @calculatedFrom( true uint16 ; true")).
+Eval vm_compute in ("<<<M4265>>>" ++ check (runes_of_ascii "  root
+packet Z9_ {
+    }	packet
+
+    charz
+
+    {
+}
+")).
+Eval vm_compute in ("<<<M2258>>>" ++ check (runes_of_ascii "MetaData _x {string x `// not a comment` , string
+i64_")).
+Eval vm_compute in ("<<<M2819>>>" ++ check (runes_of_ascii ": float64 u16 u32 false ; packet i8 root root repeat")).
+Eval vm_compute in ("<<<M3213>>>" ++ check (runes_of_ascii "packet A { B { // a
+ u8 x, // b
+ } // c
+ , // d
+ }")).
+Eval vm_compute in ("<<<M1111>>>" ++ check (runes_of_ascii "options
+    { _x = false } root packet pack
+{ }")).
+Eval vm_compute in ("<<<M2823>>>" ++ check (runes_of_ascii "char[] match @lengthOf( u64 string @rightPad ,")).
+Eval vm_compute in ("<<<M2822>>>" ++ check (runes_of_ascii "u16 char[] i16 , repeat `say ""hi""` uint16 as")).
+Eval vm_compute in ("<<<M3626>>>" ++ check (runes_of_ascii "root packet packetx {
+    As u128,
+}
+// " ++ [27880; 37322]%N)).
+Eval vm_compute in ("<<<M3234>>>" ++ check (runes_of_ascii "MetaData
+// c
+zchar { zchar[ 3 ] Pad , }")).
+Eval vm_compute in ("<<<M2791>>>" ++ check (runes_of_ascii "uint32 f32 i8 int64 false : o } packet")).
+Eval vm_compute in ("<<<M2635>>>" ++ check (runes_of_ascii "packet A { match k as n { x : B }, }")).
+Eval vm_compute in ("<<<M2793>>>" ++ check (runes_of_ascii "6URtIe#[h>d0O<r+BWy:BIxLIowjUi=;_`.")).
+Eval vm_compute in ("<<<M674>>>" ++ check (runes_of_ascii "options { x_y_z = // 50% %s
+' '}")).
+Eval vm_compute in ("<<<M3191>>>" ++ check (runes_of_ascii "packet A {
+ u8 x `d x`, // c x
+}")).
+Eval vm_compute in ("<<<M3166>>>" ++ check (runes_of_ascii "packet A {
+ u8 x `d" ++ [12]%N ++ runes_of_ascii "`, // c" ++ [12]%N ++ runes_of_ascii "
+}")).
+Eval vm_compute in ("<<<M4188>>>" ++ check (runes_of_ascii "
+packet
+
+    A {  x
+y , }
+")).
+Eval vm_compute in ("<<<M2466>>>" ++ check (runes_of_ascii "int8 int16 int32 int64 int")).
+Eval vm_compute in ("<<<M3743>>>" ++ check (runes_of_ascii "// c" ++ [8202]%N ++ runes_of_ascii "
+    packet
+A
+
+{ }
+")).
+Eval vm_compute in ("<<<M2688>>>" ++ check (runes_of_ascii "options { packet = 1; }")).
+Eval vm_compute in ("<<<M4480>>>" ++ check (runes_of_ascii "packet BodyLength {
+}")).
+Eval vm_compute in ("<<<M2615>>>" ++ check (runes_of_ascii "packet A { B { }, }")).
+Eval vm_compute in ("<<<M3129>>>" ++ check (runes_of_ascii "packet A {
+}
+// c" ++ [8192]%N)).
+Eval vm_compute in ("<<<M261>>>" ++ check (runes_of_ascii "options { } // " ++ [27880; 37322]%N)).
+Eval vm_compute in ("<<<M3210>>>" ++ check (runes_of_ascii "options { // a
+ }")).
+Eval vm_compute in ("<<<M3200>>>" ++ check (runes_of_ascii "
+
+  packet A {}")).
+Eval vm_compute in ("<<<M638>>>" ++ check (runes_of_ascii "
+options {}
+")).
+Eval vm_compute in ("<<<M2560>>>" ++ check (runes_of_ascii ":,;=()[]{}")).
+Eval vm_compute in ("<<<M2860>>>" ++ check ([65533]%N ++ runes_of_ascii "j" ++ [65533; 65533; 65533]%N ++ runes_of_ascii ":9
+")).
+Eval vm_compute in ("<<<M2444>>>" ++ check (runes_of_ascii "char[]")).
+Eval vm_compute in ("<<<M2509>>>" ++ check (runes_of_ascii "@tag(")).
+Eval vm_compute in ("<<<M2479>>>" ++ check (runes_of_ascii "root")).
+Eval vm_compute in ("<<<M2491>>>" ++ check (runes_of_ascii "' '")).
+Eval vm_compute in ("<<<M2497>>>" ++ check (runes_of_ascii "'0")).
+Eval vm_compute in ("<<<M2695>>>" ++ check (runes_of_ascii "x")).
